@@ -6,45 +6,84 @@ From CAres.Base Require Import Outcome.
 From CAres.Gen Require Import Consts.
 From CAres.Core Require Import LifecycleMonitor Lifecycle Lifecycle_inv Lifecycle_proofs Lifecycle_tokens.
 
-(* cells of linked queries unchanged => held unchanged *)
-Lemma held_same_on_linked s s' :
-  linked s' = linked s -> (forall qo, In qo (linked s) -> cell_of s' qo = cell_of s qo) -> held s' = held s.
+(* cells of linked queries and shared host_query states unchanged => held unchanged *)
+Lemma held_same_cells x s s' :
+  InvX x s -> linked s' = linked s -> st_next s <= st_next s' ->
+  (forall qo, In qo (linked s) -> cell_of s' qo = cell_of s qo) ->
+  (forall o, shared_at s' o = shared_at s o) -> held s' = held s.
 Proof.
-  intros El H. unfold held. rewrite El. apply flat_map_ext_in'. intros qo Hq. unfold qtoks. rewrite H; auto.
+  intros I El Hn H Hs. unfold held. f_equal.
+  - unfold qheld. rewrite El. apply flat_map_ext_in'. intros qo Hq. unfold qtoks. rewrite H; auto.
+  - apply hheld_same; auto. exact (inv_heap _ _ I).
 Qed.
 
-Lemma tok_alloc x s c RC RF : InvX x s -> TokInv s RC RF -> TokInv (alloc_st c s) RC RF.
+(* a cell that is not a shared host_query state *)
+Definition nonshared (c : cell) : Prop := match c with CHost h => h_remaining h = 0 | _ => True end.
+
+Lemma shared_upd s s' o :
+  (forall o', o' <> o -> cell_of s' o' = cell_of s o') -> shared_at s o = None -> shared_at s' o = None ->
+  forall o', shared_at s' o' = shared_at s o'.
 Proof.
-  intros I T. apply (tokinv_same s); auto. apply held_same_on_linked; auto.
-  intros qo Hq. destruct (inv_query _ _ I _ Hq) as [q [Hc _]]. rewrite cell_alloc.
-  pose proof (live_lt _ _ _ (inv_heap _ _ I) Hc). destruct (Nat.eqb qo (st_next s)) eqn:E; auto.
-  apply Nat.eqb_eq in E. lia.
+  intros H H1 H2 o'. destruct (Nat.eq_dec o' o) as [->|Hne]; [congruence|]. unfold shared_at. rewrite H; auto.
 Qed.
 
-Lemma tok_free s o RC RF : ~ In o (linked s) -> TokInv s RC RF -> TokInv (free_st o s) RC RF.
+Lemma nonshared_at s o c : cell_of s o = Some c -> nonshared c -> shared_at s o = None.
+Proof. intros Hc Hn. unfold shared_at. rewrite Hc. destruct c; auto. simpl in Hn. rewrite Hn. reflexivity. Qed.
+
+Lemma tok_alloc x s c RC RF : InvX x s -> nonshared c -> TokInv s RC RF -> TokInv (alloc_st c s) RC RF.
 Proof.
-  intros Hn T. apply (tokinv_same s); auto. apply held_same_on_linked; auto.
-  intros qo Hq. rewrite cell_free. destruct (Nat.eqb qo o) eqn:E; auto. apply Nat.eqb_eq in E. subst. contradiction.
+  intros I Hc T. apply (tokinv_same s); auto.
+  assert (Hfresh : cell_of s (st_next s) = None) by (eapply fresh_dead; eauto).
+  apply (held_same_cells x); auto.
+  - simpl. lia.
+  - intros qo Hq. destruct (inv_query _ _ I _ Hq) as [q Hq']. rewrite cell_alloc.
+    destruct (Nat.eqb qo (st_next s)) eqn:E; auto. apply Nat.eqb_eq in E. subst. congruence.
+  - apply (shared_upd s _ (st_next s)).
+    + intros o' Hne. rewrite cell_alloc. apply Nat.eqb_neq in Hne. rewrite Hne. reflexivity.
+    + unfold shared_at. rewrite Hfresh. reflexivity.
+    + apply (nonshared_at _ _ c); auto. rewrite cell_alloc, Nat.eqb_refl. reflexivity.
 Qed.
 
-Lemma tok_store_unlinked s o c RC RF : ~ In o (linked s) -> TokInv s RC RF -> TokInv (store_st o c s) RC RF.
+Lemma tok_free x s o c RC RF :
+  InvX x s -> cell_of s o = Some c -> nonshared c -> ~ In o (linked s) -> TokInv s RC RF -> TokInv (free_st o s) RC RF.
 Proof.
-  intros Hn T. apply (tokinv_same s); auto. apply held_same_on_linked; auto.
-  intros qo Hq. rewrite cell_store. destruct (Nat.eqb qo o) eqn:E; auto. apply Nat.eqb_eq in E. subst. contradiction.
+  intros I Hc Hns Hn T. apply (tokinv_same s); auto. apply (held_same_cells x); auto.
+  - intros qo Hq. rewrite cell_free. destruct (Nat.eqb qo o) eqn:E; auto. apply Nat.eqb_eq in E. subst. contradiction.
+  - apply (shared_upd s _ o).
+    + intros o' Hne. rewrite cell_free. apply Nat.eqb_neq in Hne. rewrite Hne. reflexivity.
+    + eapply nonshared_at; eauto.
+    + unfold shared_at. rewrite cell_free, Nat.eqb_refl. reflexivity.
+Qed.
+
+Lemma tok_store_unlinked x s o c0 c RC RF :
+  InvX x s -> cell_of s o = Some c0 -> nonshared c0 -> nonshared c -> ~ In o (linked s) ->
+  TokInv s RC RF -> TokInv (store_st o c s) RC RF.
+Proof.
+  intros I Hc Hn0 Hn1 Hn T. apply (tokinv_same s); auto. apply (held_same_cells x); auto.
+  - intros qo Hq. rewrite cell_store. destruct (Nat.eqb qo o) eqn:E; auto. apply Nat.eqb_eq in E. subst. contradiction.
+  - apply (shared_upd s _ o).
+    + intros o' Hne. rewrite cell_store. apply Nat.eqb_neq in Hne. rewrite Hne. reflexivity.
+    + eapply nonshared_at; eauto.
+    + apply (nonshared_at _ _ c); auto. rewrite cell_store, Nat.eqb_refl. reflexivity.
 Qed.
 
 Lemma tok_store_query x s o q q' RC RF :
   InvX x s -> cell_of s o = Some (CQuery q) -> q_cb q' = q_cb q -> TokInv s RC RF -> TokInv (store_st o (CQuery q') s) RC RF.
 Proof.
   intros I Hq E T. apply (tokinv_same s); auto.
-  apply (held_cb_pres x s _ I); auto. apply (cb_pres_store_query o q q' s Hq E).
+  apply (held_cb_pres x s _ I); auto. apply cb_pres_sim; [simpl; lia|].
+  intros o'. rewrite cell_store. destruct (Nat.eqb o' o) eqn:E'.
+  - apply Nat.eqb_eq in E'. subst. rewrite Hq. exact E.
+  - apply cell_sim_refl.
 Qed.
 
 (* a connection is never a linked query *)
 Lemma conn_not_linked x s co c : InvX x s -> cell_of s co = Some (CConn c) -> ~ In co (linked s).
-Proof. intros I Hc Hl. destruct (inv_query _ _ I _ Hl) as [q [Hq _]]. rewrite Hc in Hq. discriminate. Qed.
+Proof. intros I Hc Hl. destruct (inv_query _ _ I _ Hl) as [q Hq]. rewrite Hc in Hq. discriminate. Qed.
 Lemma opaque_not_linked x s o : InvX x s -> cell_of s o = Some COpaque -> ~ In o (linked s).
-Proof. intros I Hc Hl. destruct (inv_query _ _ I _ Hl) as [q [Hq _]]. rewrite Hc in Hq. discriminate. Qed.
+Proof. intros I Hc Hl. destruct (inv_query _ _ I _ Hl) as [q Hq]. rewrite Hc in Hq. discriminate. Qed.
+Lemma host_not_linked x s o h : InvX x s -> cell_of s o = Some (CHost h) -> ~ In o (linked s).
+Proof. intros I Hc Hl. destruct (inv_query _ _ I _ Hl) as [q Hq]. rewrite Hc in Hq. discriminate. Qed.
 
 Section FixedT.
 Variable cf : config.
@@ -53,15 +92,15 @@ Hypothesis Hfix : cf_fix cf = all_fixed.
 Definition tpost {A} (RC RF : list tok) : A -> state -> Prop := fun _ s' => TokInv s' RC RF.
 
 Record Specs2 (f : nat) : Prop := {
-  tp_invoke : forall k r s RC RF, Inv s -> Own s (cobjs k) -> nohost k -> TokInv s (ctoks k ++ RC) RF ->
+  tp_invoke : forall k r s RC RF, Inv s -> Own s (cobjs k) -> GivenOk s (kbot k) -> TokInv s (ctoks k ++ RC) RF ->
       safe (invoke cf f k r) s (tpost RC RF);
-  tp_run_script : forall sc s RC RF, Inv s -> (forall c, In c sc -> nohost_call c) -> TokInv s RC (calls_toks sc ++ RF) ->
+  tp_run_script : forall sc s RC RF, Inv s -> TokInv s RC (calls_toks sc ++ RF) ->
       safe (run_script cf f sc) s (tpost RC RF);
-  tp_api : forall c s RC RF, Inv s -> nohost_call c -> TokInv s RC (call_toks c ++ RF) -> safe (api cf f c) s (tpost RC RF);
-  tp_query_nolock : forall k s RC RF, Inv s -> Own s (cobjs k) -> nohost k -> TokInv s (ctoks k ++ RC) RF ->
-      safe (query_nolock cf f k None) s (tpost RC RF);
-  tp_send_nolock : forall k pr s RC RF, Inv s -> Own s (cobjs k) -> nohost k -> TokInv s (ctoks k ++ RC) RF ->
-      safe (send_nolock cf f k pr None) s (tpost RC RF);
+  tp_api : forall c s RC RF, Inv s -> TokInv s RC (call_toks c ++ RF) -> safe (api cf f c) s (tpost RC RF);
+  tp_query_nolock : forall k qd s RC RF, Inv s -> Own s (cobjs k) -> GivenOk s (kbot k) -> QdOk qd k -> TokInv s (ctoks k ++ RC) RF ->
+      safe (query_nolock cf f k qd) s (tpost RC RF);
+  tp_send_nolock : forall k pr qd s RC RF, Inv s -> Own s (cobjs k) -> GivenOk s (kbot k) -> QdOk qd k -> TokInv s (ctoks k ++ RC) RF ->
+      safe (send_nolock cf f k pr qd) s (tpost RC RF);
   tp_send_query : forall qo s RC RF, Inv s -> In qo (linked s) -> TokInv s RC RF -> safe (send_query cf f qo) s (tpost RC RF);
   tp_send_query_write : forall qo op s RC RF, Inv s -> In qo (linked s) -> TokInv s RC RF ->
       safe (send_query_write cf f qo op) s (tpost RC RF);
@@ -81,22 +120,30 @@ Record Specs2 (f : nat) : Prop := {
   tp_cleanup_loop : forall n s RC RF, Inv s -> TokInv s RC RF -> safe (cleanup_loop cf f n) s (tpost RC RF);
   tp_cancel : forall s RC RF, Inv s -> TokInv s RC RF -> safe (cancel cf f) s (tpost RC RF);
   tp_cancel_loop : forall n s RC RF, Inv s -> TokInv s RC RF -> safe (cancel_loop_fixed cf f n) s (tpost RC RF);
-  tp_search_int : forall k names s RC RF, Inv s -> Own s (cobjs k) -> nohost k -> TokInv s (ctoks k ++ RC) RF ->
+  tp_search_int : forall k names s RC RF, Inv s -> Own s (cobjs k) -> GivenOk s (kbot k) -> TokInv s (ctoks k ++ RC) RF ->
       safe (search_int cf f k names) s (tpost RC RF);
-  tp_search_next : forall o k l nd s RC RF, Inv s -> Own s (o :: cobjs k) -> nohost k -> TokInv s (ctoks k ++ RC) RF ->
+  tp_search_next : forall o k l nd s RC RF, Inv s -> Own s (o :: cobjs k) -> GivenOk s (kbot k) -> TokInv s (ctoks k ++ RC) RF ->
       safe (search_next cf f o k l nd) s
            (fun r s' => if snd r then TokInv s' RC RF
                         else TokInv s' (ctoks k ++ RC) RF /\ zeqb (fst r) ARES_SUCCESS = false);
-  tp_search_callback : forall o k cs l nd r s RC RF, Inv s -> Own s (o :: cobjs k) -> nohost k -> TokInv s (ctoks k ++ RC) RF ->
+  tp_search_callback : forall o k cs l nd r s RC RF, Inv s -> Own s (o :: cobjs k) -> GivenOk s (kbot k) -> TokInv s (ctoks k ++ RC) RF ->
       safe (search_callback cf f o k cs l nd r) s (tpost RC RF);
-  tp_end_squery : forall o k r s RC RF, Inv s -> Own s (o :: cobjs k) -> nohost k -> TokInv s (ctoks k ++ RC) RF ->
+  tp_end_squery : forall o k r s RC RF, Inv s -> Own s (o :: cobjs k) -> GivenOk s (kbot k) -> TokInv s (ctoks k ++ RC) RF ->
       safe (end_squery cf f o k r) s (tpost RC RF);
-  tp_addr_next_lookup : forall o k l s RC RF, Inv s -> Own s (o :: cobjs k) -> nohost k -> TokInv s (ctoks k ++ RC) RF ->
+  tp_addr_next_lookup : forall o k l s RC RF, Inv s -> Own s (o :: cobjs k) -> GivenOk s (kbot k) -> TokInv s (ctoks k ++ RC) RF ->
       safe (addr_next_lookup cf f o k l) s (tpost RC RF);
-  tp_addr_callback : forall o k l r s RC RF, Inv s -> Own s (o :: cobjs k) -> nohost k -> TokInv s (ctoks k ++ RC) RF ->
+  tp_addr_callback : forall o k l r s RC RF, Inv s -> Own s (o :: cobjs k) -> GivenOk s (kbot k) -> TokInv s (ctoks k ++ RC) RF ->
       safe (addr_callback cf f o k l r) s (tpost RC RF);
-  tp_end_aquery : forall o k r s RC RF, Inv s -> Own s (o :: cobjs k) -> nohost k -> TokInv s (ctoks k ++ RC) RF ->
-      safe (end_aquery cf f o k r) s (tpost RC RF)
+  tp_end_aquery : forall o k r s RC RF, Inv s -> Own s (o :: cobjs k) -> GivenOk s (kbot k) -> TokInv s (ctoks k ++ RC) RF ->
+      safe (end_aquery cf f o k r) s (tpost RC RF);
+  tp_host_next_lookup : forall o st s h RC RF, Inv s -> HOwn s o h -> TokInv s (ctoks (h_cb h) ++ RC) RF ->
+      safe (host_next_lookup cf f o st) s (tpost RC RF);
+  tp_host_next_dns_lookup : forall o s h RC RF, Inv s -> HOwn s o h -> TokInv s (ctoks (h_cb h) ++ RC) RF ->
+      safe (host_next_dns_lookup cf f o) s (tpost RC RF);
+  tp_host_callback : forall o r s RC RF, Inv s -> GivenOk s (Some o) -> TokInv s RC RF ->
+      safe (host_callback cf f o r) s (tpost RC RF);
+  tp_end_hquery : forall o st s h RC RF, Inv s -> HOwn s o h -> TokInv s (ctoks (h_cb h) ++ RC) RF ->
+      safe (end_hquery cf f o st) s (tpost RC RF)
 }.
 
 Lemma specs2_O : Specs2 0.
@@ -108,7 +155,7 @@ Let S1 := all_specs cf Hfix.
 Ltac both H1 H2 := eapply safe_mono; [apply safe_both; [apply H1|apply H2]|].
 
 (* ---- invoke ---- *)
-Lemma invoke_tstep f : Specs2 f -> forall k r s RC RF, Inv s -> Own s (cobjs k) -> nohost k -> TokInv s (ctoks k ++ RC) RF ->
+Lemma invoke_tstep f : Specs2 f -> forall k r s RC RF, Inv s -> Own s (cobjs k) -> GivenOk s (kbot k) -> TokInv s (ctoks k ++ RC) RF ->
   safe (invoke cf (S f) k r) s (tpost RC RF).
 Proof.
   intros IH k r s RC RF I O Hn T. destruct k as [t| |w o k'|o k' cs l nd|o k' l|o]; simpl.
@@ -119,7 +166,7 @@ Proof.
     assert (I1 : Inv s1) by (apply (inv_core _ _ _ E1); auto).
     assert (T1 : TokInv s1 RC RF) by (apply tokinv_emit_cb; exact T).
     destruct (tokinv_take_script t s1 RC RF T1) as [sc [s2 [E2 [T2 _]]]].
-    destruct (take_script_ok _ t s1 I1) as [sc' [s2' [E2' [C2 [I2 Hsc]]]]].
+    destruct (take_script_ok _ t s1 I1) as [sc' [s2' [E2' [C2 I2]]]].
     rewrite E2 in E2'. inversion E2'; subst sc' s2'.
     apply safe_bind. eapply safe_of_run; [exact E2|].
     apply (tp_run_script _ IH); auto.
@@ -130,28 +177,28 @@ Proof.
     apply safe_bind.
     eapply safe_mono; [apply safe_both; [apply (sp_invoke _ _ (S1 f) k' _ s I O' Hn)|apply (tp_invoke _ IH k' _ s RC RF I O' Hn T)]|].
     intros [] s1 [[I1 F1] T1].
-    pose proof (fr_cell _ _ _ F1 _ _ Hc Hr Hni) as [Hc1 Hr1].
+    pose proof (fr_cell _ _ _ _ F1 _ _ Hc Hr Hni) as [Hc1 Hr1].
     eapply safe_free; [exact (inv_heap _ _ I1)|exact Hc1|].
-    apply tok_free; auto. eapply opaque_not_linked; eauto.
+    eapply (tok_free None); eauto; [exact Logic.I|]. eapply opaque_not_linked; eauto.
   - simpl in O, Hn, T. apply (tp_search_callback _ IH); auto.
   - simpl in O, Hn, T. apply (tp_addr_callback _ IH); auto.
-  - destruct Hn.
+  - simpl in Hn, T. apply (tp_host_callback _ IH); auto.
 Qed.
 
-Lemma run_script_tstep f : Specs2 f -> forall sc s RC RF, Inv s -> (forall c, In c sc -> nohost_call c) ->
+Lemma run_script_tstep f : Specs2 f -> forall sc s RC RF, Inv s ->
   TokInv s RC (calls_toks sc ++ RF) -> safe (run_script cf (S f) sc) s (tpost RC RF).
 Proof.
-  intros IH sc s RC RF I Hsc T. destruct sc as [|c rest]; simpl.
+  intros IH sc s RC RF I T. destruct sc as [|c rest]; simpl.
   - apply safe_ret. exact T.
   - simpl in T. rewrite <- app_assoc in T.
     apply safe_bind.
-    eapply safe_mono; [apply safe_both; [apply (sp_api _ _ (S1 f) c s I); apply Hsc; left; auto
-                                        |apply (tp_api _ IH c s RC (calls_toks rest ++ RF) I); [apply Hsc; left; auto|exact T]]|].
+    eapply safe_mono; [apply safe_both; [apply (sp_api _ _ (S1 f) c s I)
+                                        |apply (tp_api _ IH c s RC (calls_toks rest ++ RF) I); exact T]|].
     intros [] s1 [[I1 _] T1].
-    apply (tp_run_script _ IH); auto. intros c' Hc'. apply Hsc. right; auto.
+    apply (tp_run_script _ IH); auto.
 Qed.
 
-Lemma end_squery_tstep f : Specs2 f -> forall o k r s RC RF, Inv s -> Own s (o :: cobjs k) -> nohost k ->
+Lemma end_squery_tstep f : Specs2 f -> forall o k r s RC RF, Inv s -> Own s (o :: cobjs k) -> GivenOk s (kbot k) ->
   TokInv s (ctoks k ++ RC) RF -> safe (end_squery cf (S f) o k r) s (tpost RC RF).
 Proof.
   intros IH o k r s RC RF I O Hn T. simpl.
@@ -160,13 +207,13 @@ Proof.
   apply safe_bind.
   eapply safe_mono; [apply safe_both; [apply (sp_invoke _ _ (S1 f) k r s I O' Hn)|apply (tp_invoke _ IH k r s RC RF I O' Hn T)]|].
   intros [] s1 [[I1 F1] T1].
-  pose proof (fr_cell _ _ _ F1 _ _ Hc Hr Hni) as [Hc1 Hr1].
+  pose proof (fr_cell _ _ _ _ F1 _ _ Hc Hr Hni) as [Hc1 Hr1].
   apply safe_bind. eapply safe_touch; [exact (inv_heap _ _ I1)|exact Hc1|].
   eapply safe_free; [exact (inv_heap _ _ I1)|exact Hc1|].
-  apply tok_free; auto. eapply opaque_not_linked; eauto.
+  eapply (tok_free None); eauto; [exact Logic.I|]. eapply opaque_not_linked; eauto.
 Qed.
 
-Lemma end_aquery_tstep f : Specs2 f -> forall o k r s RC RF, Inv s -> Own s (o :: cobjs k) -> nohost k ->
+Lemma end_aquery_tstep f : Specs2 f -> forall o k r s RC RF, Inv s -> Own s (o :: cobjs k) -> GivenOk s (kbot k) ->
   TokInv s (ctoks k ++ RC) RF -> safe (end_aquery cf (S f) o k r) s (tpost RC RF).
 Proof.
   intros IH o k r s RC RF I O Hn T. simpl.
@@ -175,35 +222,36 @@ Proof.
   apply safe_bind.
   eapply safe_mono; [apply safe_both; [apply (sp_invoke _ _ (S1 f) k r s I O' Hn)|apply (tp_invoke _ IH k r s RC RF I O' Hn T)]|].
   intros [] s1 [[I1 F1] T1].
-  pose proof (fr_cell _ _ _ F1 _ _ Hc Hr Hni) as [Hc1 Hr1].
+  pose proof (fr_cell _ _ _ _ F1 _ _ Hc Hr Hni) as [Hc1 Hr1].
   eapply safe_free; [exact (inv_heap _ _ I1)|exact Hc1|].
-  apply tok_free; auto. eapply opaque_not_linked; eauto.
+  eapply (tok_free None); eauto; [exact Logic.I|]. eapply opaque_not_linked; eauto.
 Qed.
 
 Lemma complete_query_tstep f : Specs2 f -> forall qo r s RC RF, InvX (Some qo) s -> In qo (linked s) -> TokInv s RC RF ->
   safe (complete_query cf (S f) qo r) s (tpost RC RF).
 Proof.
   intros IH qo r s RC RF I Hl T. simpl. rewrite (fx_unlink_true cf Hfix).
-  destruct (inv_query _ _ I _ Hl) as [q [Hq Hnh]].
+  destruct (inv_query _ _ I _ Hl) as [q Hq].
   destruct (detach_query_ok _ _ _ _ I (or_intror eq_refl) Hl Hq)
     as [s1 [E1 [I1 [F1 [_ [_ [_ [_ [_ [_ [Hq1 [Hr1 [O1 _]]]]]]]]]]]]].
   pose proof (tokinv_detach _ _ _ _ RC RF I (or_intror eq_refl) Hl Hq s1 E1 T) as T1.
+  pose proof (fd_given _ _ _ F1) as Hg1.
   apply safe_bind. eapply safe_of_run; [exact E1|].
   apply safe_bind. eapply safe_get_query; [exact (inv_heap _ _ I1)|exact Hq1|].
   apply safe_bind. simpl.
-  eapply safe_mono; [apply safe_both; [apply (sp_invoke _ _ (S1 f) (q_cb q) r s1 I1 O1 Hnh)
-                                      |apply (tp_invoke _ IH (q_cb q) r s1 RC RF I1 O1 Hnh T1)]|].
+  eapply safe_mono; [apply safe_both; [apply (sp_invoke _ _ (S1 f) (q_cb q) r s1 I1 O1 Hg1)
+                                      |apply (tp_invoke _ IH (q_cb q) r s1 RC RF I1 O1 Hg1 T1)]|].
   intros [] s2 [[I2 F2] T2].
-  pose proof (fr_cell _ _ _ F2 _ _ Hq1 Hr1 (opaque_not_query _ _ _ _ O1 Hq1)) as [Hq2 Hr2].
+  pose proof (fr_cell _ _ _ _ F2 _ _ Hq1 Hr1 (opaque_not_query _ _ _ _ O1 Hq1)) as [Hq2 Hr2].
   unfold release_query. eapply safe_free; [exact (inv_heap _ _ I2)|exact Hq2|].
-  apply tok_free; auto. intros H. apply Hr2. left. exact H.
+  eapply (tok_free None); eauto; [exact Logic.I|]. intros H. apply Hr2. left. exact H.
 Qed.
 
 Lemma end_query_tstep f : Specs2 f -> forall qo st r s RC RF, InvX (Some qo) s -> In qo (linked s) -> TokInv s RC RF ->
   safe (end_query cf (S f) qo st r) s (tpost RC RF).
 Proof.
   intros IH qo st r s RC RF I Hl T. simpl.
-  destruct (inv_query _ _ I _ Hl) as [q [Hq Hnh]].
+  destruct (inv_query _ _ I _ Hl) as [q Hq].
   apply safe_bind. eapply safe_get_query; [exact (inv_heap _ _ I)|exact Hq|].
   apply safe_bind. apply safe_pop. intros e rest Et.
   set (s1 := set_tape rest s).
@@ -217,7 +265,7 @@ Lemma requeue_query_tstep f : Specs2 f -> forall qo st inc df r s RC RF, InvX (S
   safe (requeue_query cf (S f) qo st inc df r) s (tpost RC RF).
 Proof.
   intros IH qo st inc df r s RC RF I Hl T. simpl.
-  destruct (inv_query _ _ I _ Hl) as [q [Hq Hnh]].
+  destruct (inv_query _ _ I _ Hl) as [q Hq].
   destruct (remove_from_conn_ok _ _ _ _ I (or_intror eq_refl) Hl Hq)
     as [s1 [E1 [I1 [F1 [El [_ [_ [_ [_ [_ [_ [_ [_ [_ Hc1]]]]]]]]]]]]]].
   pose proof (tokinv_remove_from_conn _ _ _ _ RC RF I (or_intror eq_refl) Hl Hq s1 E1 T) as T1.
@@ -257,7 +305,7 @@ Proof.
     eapply safe_mono; [apply safe_both; [apply (sp_requeue_query _ _ (S1 f) qo st true false (res st) s (inv_weaken _ _ I) Hl)
                                         |apply (tp_requeue_query _ IH qo st true false (res st) s RC RF (inv_weaken _ _ I) Hl T)]|].
     intros z s1 [[I1 F1] T1].
-    pose proof (fr_cell _ _ _ F1 _ _ Hc Hr (fun H => H)) as [c1 [Hc1 [Hr1 _]]].
+    pose proof (fr_cell _ _ _ _ F1 _ _ Hc Hr (fun H => H)) as [c1 [Hc1 [Hr1 _]]].
     apply (tp_requeue_conn_queries _ IH n' co st s1 c1); auto.
 Qed.
 
@@ -272,10 +320,11 @@ Proof.
   assert (T1 : TokInv s1 RC RF) by (apply (tokinv_same s); [reflexivity|reflexivity|reflexivity|exact T]).
   assert (Hc1 : cell_of s1 co = Some (CConn c)) by exact Hc.
   assert (Hr1 : ~ rooted s1 co).
-  { intros [H|[H|H]].
-    - destruct (inv_query _ _ I1 _ H) as [q [Hq _]]. rewrite Hc1 in Hq. discriminate.
+  { intros [H|[H|[H|H]]].
+    - destruct (inv_query _ _ I1 _ H) as [q Hq]. rewrite Hc1 in Hq. discriminate.
     - exact (Hn1 H).
-    - destruct (inv_chain _ _ I1) as [_ Hop]. rewrite (Hop _ H) in Hc1. discriminate. }
+    - destruct (inv_chain _ _ I1) as [_ Hop]. rewrite (Hop _ H) in Hc1. discriminate.
+    - destruct (hi_objs _ (inv_hosts _ _ I1)) as [_ Hop]. destruct (Hop _ H) as [Hop' _]. rewrite Hop' in Hc1. discriminate. }
   apply safe_bind.
   eapply safe_mono; [apply safe_both; [apply (sp_requeue_conn_queries _ _ (S1 f) f co st s1 c I1 Hc1 Hr1)
                                       |apply (tp_requeue_conn_queries _ IH f co st s1 c RC RF I1 Hc1 Hr1 T1)]|].
@@ -289,9 +338,9 @@ Proof.
   assert (T3 : TokInv s3 RC RF) by (apply tokinv_set_tape; exact T2).
   rewrite (fx_connread_true cf Hfix). simpl. destruct (c_reading c2).
   - eapply safe_store; [exact (inv_heap _ _ I3)|exact Hc3|].
-    apply tok_store_unlinked; auto. eapply conn_not_linked; eauto.
+    eapply (tok_store_unlinked None); eauto; try exact Logic.I. eapply conn_not_linked; eauto.
   - eapply safe_free; [exact (inv_heap _ _ I3)|exact Hc3|].
-    apply tok_free; auto. eapply conn_not_linked; eauto.
+    eapply (tok_free None); eauto; [exact Logic.I|]. eapply conn_not_linked; eauto.
 Qed.
 
 Lemma handle_conn_error_tstep f : Specs2 f -> forall co cr st s c RC RF, Inv s -> cell_of s co = Some (CConn c) -> TokInv s RC RF ->
@@ -356,7 +405,9 @@ Proof.
 Qed.
 
 Lemma held_set_lists s ls : concat ls = linked s -> held (set_lists ls s) = held s.
-Proof. intros E. unfold held. change (linked (set_lists ls s)) with (concat ls). rewrite E. reflexivity. Qed.
+Proof.
+  intros E. unfold held. f_equal. unfold qheld. change (linked (set_lists ls s)) with (concat ls). rewrite E. reflexivity.
+Qed.
 
 Lemma cancel_tstep f : Specs2 f -> forall s RC RF, Inv s -> TokInv s RC RF -> safe (cancel cf (S f)) s (tpost RC RF).
 Proof.
@@ -389,7 +440,7 @@ Lemma send_query_write_tstep f : Specs2 f -> forall qo op s RC RF, Inv s -> In q
   safe (send_query_write cf (S f) qo op) s (tpost RC RF).
 Proof.
   intros IH qo op s RC RF I Hl T. simpl.
-  destruct (inv_query _ _ I _ Hl) as [q [Hq Hnh]].
+  destruct (inv_query _ _ I _ Hl) as [q Hq].
   apply safe_bind. eapply safe_get_query; [exact (inv_heap _ _ I)|exact Hq|].
   apply safe_bind. apply safe_pop. intros e rest Et.
   destruct e; try apply safe_fail.
@@ -450,16 +501,17 @@ Proof.
       assert (HcB : cell_of sB co = Some (CConn cA)) by exact HcA.
       assert (TB : TokInv sB RC RF) by (apply tokinv_set_tape; exact TA).
       destruct (zeqb wrc ARES_SUCCESS).
-      - destruct (inv_query _ _ IB _ HlB) as [qB [HqB _]].
+      - destruct (inv_query _ _ IB _ HlB) as [qB HqB].
         destruct (attach_run sB qo qB co cA tcp IB HlB HqB HinB HcB HnclA)
-          as [sC [EC [IC [FC [EllC [_ [_ [EscC [_ [EtrC HcbC]]]]]]]]]].
+          as [sC [EC [IC [FC [EllC [_ [_ [EscC [_ [EtrC [_ HsimC]]]]]]]]]]].
         assert (TC : TokInv sC RC RF).
-        { apply (tokinv_same sB); auto. apply (held_cb_pres None sB sC IB EllC). exact HcbC. }
+        { apply (tokinv_same sB); auto. apply (held_cb_pres None sB sC IB EllC).
+          apply cb_pres_sim; [exact (fr_next _ _ _ _ FC)|exact HsimC]. }
         apply safe_bind. eapply safe_of_run; [exact EC|].
         apply safe_bind. apply safe_bind. apply safe_get.
         destruct (probe_ahead (st_tape sC)).
         + apply safe_bind.
-          eapply safe_mono; [apply (tp_send_nolock _ IH KProbe true sC RC RF IC (own_nil _) Logic.I TC)|].
+          eapply safe_mono; [apply (tp_send_nolock _ IH KProbe true None sC RC RF IC (own_nil _) Logic.I Logic.I TC)|].
           intros z sD TD. apply safe_ret. apply safe_ret. exact TD.
         + apply safe_ret. apply safe_ret. exact TC.
       - destruct (zeqb wrc ARES_ENOMEM).
@@ -495,14 +547,14 @@ Proof.
     destruct (new_conn_ok None s1 c0 I1 eq_refl eq_refl) as [I2 [F2 [Hc2 [Hin2 [_ [Ell2 _]]]]]].
     eapply (G _ (st_next s1) c0); auto.
     apply (tokinv_same (alloc_st (CConn c0) s1)); [reflexivity|reflexivity|reflexivity|].
-    apply (tok_alloc None); auto.
+    apply (tok_alloc None); auto. exact Logic.I.
 Qed.
 
 Lemma send_query_tstep f : Specs2 f -> forall qo s RC RF, Inv s -> In qo (linked s) -> TokInv s RC RF ->
   safe (send_query cf (S f) qo) s (tpost RC RF).
 Proof.
   intros IH qo s RC RF I Hl T. simpl.
-  destruct (inv_query _ _ I _ Hl) as [q [Hq Hnh]].
+  destruct (inv_query _ _ I _ Hl) as [q Hq].
   apply safe_bind. eapply safe_get_query; [exact (inv_heap _ _ I)|exact Hq|].
   apply safe_bind. apply safe_peek.
   assert (Dflt : safe (send_query_write cf f qo false) s (tpost RC RF)) by (apply (tp_send_query_write _ IH); auto).
@@ -536,10 +588,20 @@ Proof.
   - apply safe_ret. apply HQ. exact Lk.
 Qed.
 
-Lemma send_nolock_tstep f : Specs2 f -> forall k pr s RC RF, Inv s -> Own s (cobjs k) -> nohost k -> TokInv s (ctoks k ++ RC) RF ->
-  safe (send_nolock cf (S f) k pr None) s (tpost RC RF).
+Lemma write_qid_tok qd qid k s RC RF : Inv s -> QdOk qd k -> (forall o, kbot k = Some o -> exists h, shared_at s o = Some h) ->
+  TokInv s RC RF -> safe (write_qid qd qid) s (tpost RC RF).
 Proof.
-  intros IH k pr s RC RF I O Hn T. rewrite send_nolock_unfold. rewrite (fx_qidearly_true cf Hfix). simpl negb. cbn [andb write_qid].
+  intros I Hqd Hk T. unfold write_qid. destruct qd as [[o aaaa]|]; [|apply safe_ret; exact T].
+  simpl in Hqd. destruct (Hk _ Hqd) as [h Hs]. destruct (shared_host _ _ _ Hs) as [Hc Hp].
+  unfold get_host. apply safe_bind. apply safe_bind. eapply safe_touch; [exact (inv_heap _ _ I)|exact Hc|].
+  apply safe_ret. eapply safe_store; [exact (inv_heap _ _ I)|exact Hc|].
+  apply (tokinv_host_shared None s o h); auto; destruct aaaa; auto.
+Qed.
+
+Lemma send_nolock_tstep f : Specs2 f -> forall k pr qd s RC RF, Inv s -> Own s (cobjs k) -> GivenOk s (kbot k) -> QdOk qd k ->
+  TokInv s (ctoks k ++ RC) RF -> safe (send_nolock cf (S f) k pr qd) s (tpost RC RF).
+Proof.
+  intros IH k pr qd s RC RF I O Hn Hqd T. rewrite send_nolock_unfold. rewrite (fx_qidearly_true cf Hfix). simpl negb. cbn [andb].
   apply safe_bind. apply gen_qid_ok'. intros qid l1 Lk1.
   set (s1 := set_tape l1 s).
   assert (E1 : core_eq s s1) by apply core_eq_set_tape.
@@ -561,7 +623,7 @@ Proof.
                                                            q_noretry := pr; q_tcp := false; q_err := ARES_SUCCESS |}) in
                                 link_all qo;;
                                 modify (fun s0 => set_byqid ((qid, qo) :: st_byqid s0) s0);;
-                                ret tt;;
+                                write_qid qd qid;;
                                 (let! st := send_query cf f qo in ret tt;; ret st))
                       | _ => fail EDESYNC end
                   end) (set_tape l2 s) (tpost RC RF)).
@@ -569,41 +631,51 @@ Proof.
     assert (E2 : core_eq s s2) by apply core_eq_set_tape.
     assert (I2 : Inv s2) by (apply (inv_core _ _ _ E2); auto).
     assert (O2 : Own s2 (cobjs k)) by (apply (own_core _ _ _ E2); auto).
+    assert (Hn2 : GivenOk s2 (kbot k)) by (apply (given_core _ _ _ E2); auto).
     assert (T2 : TokInv s2 (ctoks k ++ RC) RF) by (apply tokinv_set_tape; exact T).
     destruct cached as [r|].
-    - apply safe_bind. eapply safe_mono; [apply (tp_invoke _ IH k r s2 RC RF I2 O2 Hn T2)|].
+    - apply safe_bind. eapply safe_mono; [apply (tp_invoke _ IH k r s2 RC RF I2 O2 Hn2 T2)|].
       intros [] s3 T3. apply safe_ret. exact T3.
     - apply safe_bind. apply safe_pop. intros e rest Et. destruct e; try apply safe_fail.
       set (s3 := set_tape rest s2).
       assert (E3 : core_eq s s3) by (unfold core_eq; repeat split).
       assert (I3 : Inv s3) by (apply (inv_core _ _ _ E3); auto).
       assert (O3 : Own s3 (cobjs k)) by (apply (own_core _ _ _ E3); auto).
+      assert (Hn3 : GivenOk s3 (kbot k)) by (apply (given_core _ _ _ E3); auto).
       assert (T3 : TokInv s3 (ctoks k ++ RC) RF) by (apply tokinv_set_tape; exact T2).
       destruct (negb (zeqb rc ARES_SUCCESS)).
-      + apply safe_bind. eapply safe_mono; [apply (tp_invoke _ IH k _ s3 RC RF I3 O3 Hn T3)|].
+      + apply safe_bind. eapply safe_mono; [apply (tp_invoke _ IH k _ s3 RC RF I3 O3 Hn3 T3)|].
         intros [] s4 T4. apply safe_ret. exact T4.
       + assert (D : forall l4,
                   safe (let! qo := alloc (CQuery {| q_qid := qid; q_cb := k; q_conn := None; q_try := 0;
                                                     q_noretry := pr; q_tcp := false; q_err := ARES_SUCCESS |}) in
                         link_all qo;;
                         modify (fun s0 => set_byqid ((qid, qo) :: st_byqid s0) s0);;
-                        ret tt;;
+                        write_qid qd qid;;
                         (let! st := send_query cf f qo in ret tt;; ret st))
                        (set_tape l4 s) (tpost RC RF)).
         { intros l4. set (s4 := set_tape l4 s).
           assert (E4 : core_eq s s4) by apply core_eq_set_tape.
           assert (I4 : Inv s4) by (apply (inv_core _ _ _ E4); auto).
           assert (O4 : Own s4 (cobjs k)) by (apply (own_core _ _ _ E4); auto).
+          assert (Hn4 : GivenOk s4 (kbot k)) by (apply (given_core _ _ _ E4); auto).
           assert (T4 : TokInv s4 (ctoks k ++ RC) RF) by (apply tokinv_set_tape; exact T).
           set (q0 := {| q_qid := qid; q_cb := k; q_conn := None; q_try := 0; q_noretry := pr; q_tcp := false; q_err := ARES_SUCCESS |}).
-          destruct (new_query_ok s4 k qid q0 I4 O4 Hn Lk1 eq_refl eq_refl eq_refl) as [I5 [F5 [Hl5 _]]].
-          pose proof (tokinv_new_query s4 k qid q0 RC RF I4 O4 Hn Lk1 eq_refl eq_refl eq_refl T4) as T5.
+          destruct (new_query_ok s4 k qid q0 I4 O4 Hn4 Lk1 eq_refl eq_refl eq_refl) as [I5 [F5 [Hl5 [Hq5 _]]]].
+          pose proof (tokinv_new_query s4 k qid q0 RC RF I4 O4 Hn4 Lk1 eq_refl eq_refl eq_refl T4) as T5.
           apply safe_bind. apply safe_alloc.
           apply safe_bind. eapply safe_of_run; [apply link_all_run|].
           apply safe_bind. apply safe_modify.
-          apply safe_bind. apply safe_ret.
-          apply safe_bind. eapply safe_mono; [apply (tp_send_query _ IH _ _ RC RF I5 Hl5 T5)|].
-          intros z s6 T6. apply safe_bind. apply safe_ret. apply safe_ret. exact T6. }
+          assert (Hk5 : forall o, kbot k = Some o -> exists h, shared_at
+                     (set_byqid ((qid, st_next s4) :: st_byqid (set_lists (link_lists (st_next s4) (st_lists s4)) (alloc_st (CQuery q0) s4)))
+                        (set_lists (link_lists (st_next s4) (st_lists s4)) (alloc_st (CQuery q0) s4))) o = Some h).
+          { intros o Ek. destruct (hi_ref _ (inv_hosts _ _ I5) _ o Hl5) as [h Hs]; eauto.
+            unfold href. rewrite Hq5. exact Ek. }
+          apply safe_bind.
+          eapply safe_mono; [apply safe_both; [apply (write_qid_ok qd qid k _ I5 Hqd Hk5)|apply (write_qid_tok qd qid k _ RC RF I5 Hqd Hk5 T5)]|].
+          intros [] s6 [[I6 [F6 Ell6]] T6].
+          apply safe_bind. eapply safe_mono; [apply (tp_send_query _ IH _ _ RC RF I6); [rewrite Ell6; exact Hl5|exact T6]|].
+          intros z s7 T7. apply safe_bind. apply safe_ret. apply safe_ret. exact T7. }
         apply safe_bind.
         * destruct (cf_dns0x20 cf); [|apply safe_ret; apply (D rest)].
           apply safe_bind. apply safe_peek.
@@ -619,20 +691,20 @@ Proof.
 Qed.
 
 Lemma own_alloc_tok s k RC RF : Inv s -> TokInv s (ctoks k ++ RC) RF -> TokInv (alloc_st COpaque s) (ctoks k ++ RC) RF.
-Proof. intros I T. apply (tok_alloc None); auto. Qed.
+Proof. intros I T. apply (tok_alloc None); auto. exact Logic.I. Qed.
 
-Lemma query_nolock_tstep f : Specs2 f -> forall k s RC RF, Inv s -> Own s (cobjs k) -> nohost k -> TokInv s (ctoks k ++ RC) RF ->
-  safe (query_nolock cf (S f) k None) s (tpost RC RF).
+Lemma query_nolock_tstep f : Specs2 f -> forall k qd s RC RF, Inv s -> Own s (cobjs k) -> GivenOk s (kbot k) -> QdOk qd k ->
+  TokInv s (ctoks k ++ RC) RF -> safe (query_nolock cf (S f) k qd) s (tpost RC RF).
 Proof.
-  intros IH k s RC RF I O Hn T. simpl.
+  intros IH k qd s RC RF I O Hn Hqd T. simpl.
   apply safe_bind. apply safe_alloc.
   destruct (alloc_opaque_ok None s I) as [I1 _].
-  apply (tp_send_nolock _ IH (KWrap WQQuery (st_next s) k) false _ RC RF I1 (own_alloc s _ I O) Hn).
+  apply (tp_send_nolock _ IH (KWrap WQQuery (st_next s) k) false qd _ RC RF I1 (own_alloc s _ I O) (given_alloc s _ I Hn) Hqd).
   simpl. apply own_alloc_tok; auto.
 Qed.
 
 (* ---- search ---- *)
-Lemma search_next_tstep f : Specs2 f -> forall o k l nd s RC RF, Inv s -> Own s (o :: cobjs k) -> nohost k ->
+Lemma search_next_tstep f : Specs2 f -> forall o k l nd s RC RF, Inv s -> Own s (o :: cobjs k) -> GivenOk s (kbot k) ->
   TokInv s (ctoks k ++ RC) RF ->
   safe (search_next cf (S f) o k l nd) s
        (fun r s' => if snd r then TokInv s' RC RF else TokInv s' (ctoks k ++ RC) RF /\ zeqb (fst r) ARES_SUCCESS = false).
@@ -647,15 +719,16 @@ Proof.
     assert (E1 : core_eq s s1) by apply core_eq_set_tape.
     assert (I1 : Inv s1) by (apply (inv_core _ _ _ E1); auto).
     assert (O1 : Own s1 (o :: cobjs k)) by (apply (own_core _ _ _ E1); auto).
+    assert (Hn1 : GivenOk s1 (kbot k)) by (apply (given_core _ _ _ E1); auto).
     assert (T1 : TokInv s1 (ctoks k ++ RC) RF) by (apply tokinv_set_tape; exact T).
     destruct (negb (zeqb rc ARES_SUCCESS)) eqn:Erc.
     + apply safe_ret. simpl. split; [exact T1|]. apply negb_true_iff in Erc. exact Erc.
     + apply safe_bind.
-      eapply safe_mono; [apply (tp_send_nolock _ IH (KSearch o k cur l' nd) false s1 RC RF I1 O1 Hn T1)|].
+      eapply safe_mono; [apply (tp_send_nolock _ IH (KSearch o k cur l' nd) false None s1 RC RF I1 O1 Hn1 Logic.I T1)|].
       intros st s2 T2. apply safe_ret. rewrite (fx_search_true cf Hfix). simpl. exact T2.
 Qed.
 
-Lemma search_callback_tstep f : Specs2 f -> forall o k cs l nd r s RC RF, Inv s -> Own s (o :: cobjs k) -> nohost k ->
+Lemma search_callback_tstep f : Specs2 f -> forall o k cs l nd r s RC RF, Inv s -> Own s (o :: cobjs k) -> GivenOk s (kbot k) ->
   TokInv s (ctoks k ++ RC) RF -> safe (search_callback cf (S f) o k cs l nd r) s (tpost RC RF).
 Proof.
   intros IH o k cs l nd r s RC RF I O Hn T. simpl.
@@ -668,44 +741,45 @@ Proof.
     + apply safe_bind.
       eapply safe_mono; [apply safe_both; [apply (sp_search_next _ _ (S1 f) o k (c0 :: l') _ s I O Hn)
                                           |apply (tp_search_next _ IH o k (c0 :: l') _ s RC RF I O Hn T)]|].
-      intros [st skip] s1 [[I1 [F1 Hown]] T1]. simpl in F1, Hown, T1.
+      intros [st skip] s1 [[I1 F1] T1]. simpl in F1, T1.
       destruct skip; simpl.
       * rewrite andb_false_r. apply safe_ret. exact T1.
-      * destruct T1 as [T1 Est]. rewrite Est. simpl.
+      * destruct T1 as [T1 Est]. destruct F1 as [F1 [O1 [Hn1 _]]]. rewrite Est. simpl.
         apply (tp_end_squery _ IH); auto.
 Qed.
 
-Lemma search_int_tstep f : Specs2 f -> forall k names s RC RF, Inv s -> Own s (cobjs k) -> nohost k ->
+Lemma search_int_tstep f : Specs2 f -> forall k names s RC RF, Inv s -> Own s (cobjs k) -> GivenOk s (kbot k) ->
   TokInv s (ctoks k ++ RC) RF -> safe (search_int cf (S f) k names) s (tpost RC RF).
 Proof.
   intros IH k names s RC RF I O Hn T. simpl.
   apply safe_bind. apply safe_alloc.
   destruct (alloc_opaque_ok None s I) as [I1 [F1 _]].
-  pose proof (own_alloc s _ I O) as O1.
+  pose proof (own_alloc s _ I O) as O1. pose proof (given_alloc s _ I Hn) as Hn1.
   pose proof (own_alloc_tok s k RC RF I T) as T1.
   set (o := st_next s) in *. set (s1 := alloc_st COpaque s) in *.
   apply safe_bind.
-  eapply safe_mono; [apply safe_both; [apply (sp_search_next _ _ (S1 f) o k names false s1 I1 O1 Hn)
-                                      |apply (tp_search_next _ IH o k names false s1 RC RF I1 O1 Hn T1)]|].
-  intros [st skip] s2 [[I2 [F2 Hown]] T2]. simpl in F2, Hown, T2.
+  eapply safe_mono; [apply safe_both; [apply (sp_search_next _ _ (S1 f) o k names false s1 I1 O1 Hn1)
+                                      |apply (tp_search_next _ IH o k names false s1 RC RF I1 O1 Hn1 T1)]|].
+  intros [st skip] s2 [[I2 F2] T2]. simpl in F2, T2.
   destruct skip.
   - destruct (zeqb st ARES_SUCCESS).
     + apply safe_ret. exact T2.
     + apply safe_bind. apply safe_ret. apply safe_ret. exact T2.
-  - destruct T2 as [T2 Est]. rewrite Est.
-    destruct (own_cons _ _ _ (Hown eq_refl)) as [Hc2 [Hr2 [Hni2 O2]]].
+  - destruct T2 as [T2 Est]. destruct F2 as [F2 [O2a [Hn2 _]]]. rewrite Est.
+    destruct (own_cons _ _ _ O2a) as [Hc2 [Hr2 [Hni2 O2]]].
     apply safe_bind. apply safe_bind. eapply safe_touch; [exact (inv_heap _ _ I2)|exact Hc2|].
     apply safe_bind. eapply safe_free; [exact (inv_heap _ _ I2)|exact Hc2|].
-    destruct (free_unrooted_ok None s2 o COpaque I2 Hc2 ltac:(discriminate) Hr2) as [I3 [F3 _]].
+    destruct (free_unrooted_ok None s2 o COpaque I2 Hc2 ltac:(discriminate) ltac:(discriminate) Hr2) as [I3 [F3 _]].
     assert (O3 : Own (free_st o s2) (cobjs k)).
-    { apply (own_frame _ _ _ _ O2 F3). intros y Hy [<-|[]]. contradiction. }
+    { apply (own_frame _ _ _ _ _ O2 F3). intros y Hy [<-|[]]. contradiction. }
+    assert (Hn3 : GivenOk (free_st o s2) (kbot k)) by exact (given_frame _ _ _ _ Hn2 F3).
     assert (T3 : TokInv (free_st o s2) (ctoks k ++ RC) RF).
-    { apply tok_free; auto. eapply opaque_not_linked; eauto. }
-    eapply safe_mono; [apply (tp_invoke _ IH k _ _ RC RF I3 O3 Hn T3)|].
+    { eapply (tok_free None); eauto; [exact Logic.I|]. eapply opaque_not_linked; eauto. }
+    eapply safe_mono; [apply (tp_invoke _ IH k _ _ RC RF I3 O3 Hn3 T3)|].
     intros [] s4 T4. apply safe_ret. exact T4.
 Qed.
 
-Lemma addr_next_lookup_tstep f : Specs2 f -> forall o k l s RC RF, Inv s -> Own s (o :: cobjs k) -> nohost k ->
+Lemma addr_next_lookup_tstep f : Specs2 f -> forall o k l s RC RF, Inv s -> Own s (o :: cobjs k) -> GivenOk s (kbot k) ->
   TokInv s (ctoks k ++ RC) RF -> safe (addr_next_lookup cf (S f) o k l) s (tpost RC RF).
 Proof.
   intros IH o k l s RC RF I O Hn T. simpl.
@@ -714,12 +788,12 @@ Proof.
   destruct l as [|[|] l'].
   - apply (tp_end_aquery _ IH); auto.
   - apply safe_bind.
-    eapply safe_mono; [apply (tp_query_nolock _ IH (KAddr o k l') s RC RF I O Hn T)|].
+    eapply safe_mono; [apply (tp_query_nolock _ IH (KAddr o k l') None s RC RF I O Hn Logic.I T)|].
     intros z s1 T1. apply safe_ret. exact T1.
   - apply (tp_addr_next_lookup _ IH); auto.
 Qed.
 
-Lemma addr_callback_tstep f : Specs2 f -> forall o k l r s RC RF, Inv s -> Own s (o :: cobjs k) -> nohost k ->
+Lemma addr_callback_tstep f : Specs2 f -> forall o k l r s RC RF, Inv s -> Own s (o :: cobjs k) -> GivenOk s (kbot k) ->
   TokInv s (ctoks k ++ RC) RF -> safe (addr_callback cf (S f) o k l r) s (tpost RC RF).
 Proof.
   intros IH o k l r s RC RF I O Hn T. simpl.
@@ -730,29 +804,191 @@ Proof.
     set (s1 := set_tape rest s).
     assert (E1 : core_eq s s1) by apply core_eq_set_tape.
     apply (tp_end_aquery _ IH o k (res rc) s1 RC RF);
-      [apply (inv_core _ _ _ E1); auto|apply (own_core _ _ _ E1); auto|auto|apply tokinv_set_tape; exact T].
+      [apply (inv_core _ _ _ E1); auto|apply (own_core _ _ _ E1); auto|apply (given_core _ _ _ E1); auto|apply tokinv_set_tape; exact T].
   - destruct (zeqb (r_status r) ARES_EDESTRUCTION || zeqb (r_status r) ARES_ECANCELLED).
     + apply (tp_end_aquery _ IH); auto.
     + apply (tp_addr_next_lookup _ IH); auto.
 Qed.
 
+(* ---- ares_getaddrinfo.c ---- *)
+Lemma end_hquery_tstep f : Specs2 f -> forall o st s h RC RF, Inv s -> HOwn s o h -> TokInv s (ctoks (h_cb h) ++ RC) RF ->
+  safe (end_hquery cf (S f) o st) s (tpost RC RF).
+Proof.
+  intros IH o st s h RC RF I HO T. pose proof (hown_opaque _ _ _ HO) as Hni. destruct HO as [Hc [Hz [Hnh O]]]. simpl.
+  apply safe_bind. eapply safe_get_host; [exact (inv_heap _ _ I)|exact Hc|].
+  pose proof (nohost_kbot _ Hnh) as Ek.
+  assert (Hg : GivenOk s (kbot (h_cb h))) by (rewrite Ek; exact Logic.I).
+  apply safe_bind.
+  eapply safe_mono; [apply safe_both; [apply (sp_invoke _ _ (S1 f) (h_cb h) (res st) s I O Hg)
+                                      |apply (tp_invoke _ IH (h_cb h) (res st) s RC RF I O Hg T)]|].
+  intros [] s1 [[I1 F1] T1]. rewrite Ek in F1.
+  destruct (fr_cell _ _ _ _ F1 _ _ Hc (host_unrooted _ _ _ _ I Hc) Hni Hz) as [Hc1 Hr1].
+  eapply safe_free; [exact (inv_heap _ _ I1)|exact Hc1|].
+  eapply (tok_free None); eauto. eapply host_not_linked; eauto.
+Qed.
+
+Lemma host_next_lookup_tstep f : Specs2 f -> forall o st s h RC RF, Inv s -> HOwn s o h -> TokInv s (ctoks (h_cb h) ++ RC) RF ->
+  safe (host_next_lookup cf (S f) o st) s (tpost RC RF).
+Proof.
+  intros IH o st s h RC RF I HO T. pose proof HO as [Hc [Hz [Hnh O]]]. simpl.
+  apply safe_bind. eapply safe_get_host; [exact (inv_heap _ _ I)|exact Hc|].
+  assert (G : forall rest, safe (store o (CHost (h_set_lookups rest h));; host_next_lookup cf f o st) s (tpost RC RF)).
+  { intros rest. apply safe_bind. eapply safe_store; [exact (inv_heap _ _ I)|exact Hc|].
+    destruct (hown_store s o h (h_set_lookups rest h) I HO eq_refl Hz) as [I1 [F1 HO1]].
+    apply (tp_host_next_lookup _ IH o st _ _ RC RF I1 HO1).
+    apply (tokinv_host_excl None s o h); auto. }
+  destruct (h_lookups h) as [|[|] rest].
+  - apply (tp_end_hquery _ IH o st s h); auto.
+  - destruct (negb (h_localhost h) && match h_names h with [] => false | _ :: _ => true end).
+    + apply (tp_host_next_dns_lookup _ IH o s h); auto.
+    + apply G.
+  - destruct (h_localhost h).
+    + apply (tp_end_hquery _ IH o ARES_SUCCESS s h); auto.
+    + apply G.
+Qed.
+
+Lemma host_next_dns_lookup_tstep f : Specs2 f -> forall o s h RC RF, Inv s -> HOwn s o h -> TokInv s (ctoks (h_cb h) ++ RC) RF ->
+  safe (host_next_dns_lookup cf (S f) o) s (tpost RC RF).
+Proof.
+  intros IH o s h RC RF I HO T. pose proof HO as [Hc [Hz [Hnh O]]]. simpl.
+  apply safe_bind. eapply safe_get_host; [exact (inv_heap _ _ I)|exact Hc|].
+  set (n := if Nat.eqb (h_family h) 0 then 2 else 1).
+  set (h1 := h_set_remaining (h_remaining h + n) (h_set_names (tl (h_names h)) (hd false (h_names h)) h)).
+  assert (Er1 : h_remaining h1 = n) by (unfold h1; simpl; rewrite Hz; reflexivity).
+  assert (Hn : n = 1 \/ n = 2) by (unfold n; destruct (Nat.eqb (h_family h) 0); auto).
+  apply safe_bind. eapply safe_store; [exact (inv_heap _ _ I)|exact Hc|].
+  destruct (store_host_share_ok None s o h h1 I Hc Hz O Hnh eq_refl ltac:(lia)) as [I1 [F1 [Hs1 [Hz1 _]]]].
+  assert (T1 : TokInv (store_st o (CHost h1) s) RC RF).
+  { apply (tokinv_host_share None s o h h1); auto. lia. }
+  set (s1 := store_st o (CHost h1) s) in *.
+  assert (Hg1 : GivenOk s1 (Some o)) by (exists h1; split; auto; lia).
+  apply safe_bind.
+  eapply safe_mono; [apply safe_both; [apply (sp_query_nolock _ _ (S1 f) (KHost o) (Some (o, Nat.eqb (h_family h) 6)) s1 I1 (own_nil _) Hg1 eq_refl)
+                                      |apply (tp_query_nolock _ IH (KHost o) (Some (o, Nat.eqb (h_family h) 6)) s1 RC RF I1 (own_nil _) Hg1 eq_refl T1)]|].
+  intros z s2 [[I2 F2] T2]. simpl in F2.
+  fold n. destruct (Nat.eqb n 2) eqn:En.
+  - apply Nat.eqb_eq in En.
+    pose proof (dns_second_given s1 s2 o h1 Hs1 Hz1 ltac:(lia) F2) as Hg2.
+    apply safe_bind.
+    eapply safe_mono; [apply (tp_query_nolock _ IH (KHost o) (Some (o, true)) s2 RC RF I2 (own_nil _) Hg2 eq_refl T2)|].
+    intros z3 s3 T3. apply safe_ret. exact T3.
+  - apply safe_ret. exact T2.
+Qed.
+
+Lemma host_callback_tstep f : Specs2 f -> forall o r s RC RF, Inv s -> GivenOk s (Some o) -> TokInv s RC RF ->
+  safe (host_callback cf (S f) o r) s (tpost RC RF).
+Proof.
+  intros IH o r s RC RF I [h [Hs Hlt]] T. destruct (shared_host _ _ _ Hs) as [Hc Hp]. simpl.
+  apply safe_bind. eapply safe_get_host; [exact (inv_heap _ _ I)|exact Hc|].
+  apply safe_bind. eapply safe_store; [exact (inv_heap _ _ I)|exact Hc|].
+  set (h1 := h_set_remaining (Init.Nat.pred (h_remaining h)) h).
+  set (s1 := store_st o (CHost h1) s).
+  assert (Ecb1 : h_cb h1 = h_cb h) by reflexivity.
+  assert (Er1 : h_remaining h1 = Init.Nat.pred (h_remaining h)) by reflexivity.
+  assert (TPB : forall (Q : Z * bool * bool -> state -> Prop), (forall v l, Q v (set_tape l s1)) ->
+            safe (if zeqb (r_status r) ARES_SUCCESS
+                  then let! e := pop in
+                       match e with
+                       | TP rc nodes v4 v6 =>
+                           if zeqb rc ARES_SUCCESS && negb (h_family h =? 0)
+                           then ret (if if h_family h =? 4 then v4 else v6 then ARES_SUCCESS else ARES_ENODATA,
+                                     if h_family h =? 4 then v4 else v6, if h_family h =? 4 then v4 else false)
+                           else ret (rc, nodes, v4)
+                       | _ => fail EDESYNC end
+                  else ret (ARES_SUCCESS, h_nodes h, h_v4 h)) s1 Q).
+  { intros Q HQ. destruct (zeqb (r_status r) ARES_SUCCESS).
+    - apply safe_bind. apply safe_pop. intros e rest Et. destruct e; try apply safe_fail.
+      destruct (zeqb rc ARES_SUCCESS && negb (h_family h =? 0)); apply safe_ret; apply HQ.
+    - apply safe_ret. replace s1 with (set_tape (st_tape s1) s1) by (destruct s1; reflexivity). apply HQ. }
+  apply safe_bind. apply TPB. intros [[ais nodes] v4] l2. set (s2 := set_tape l2 s1).
+  assert (E2 : core_eq s1 s2) by apply core_eq_set_tape.
+  destruct (Init.Nat.pred (h_remaining h) =? 0) eqn:Erem.
+  - apply Nat.eqb_eq in Erem.
+    assert (Hr1 : h_remaining h = 1) by lia.
+    assert (Hz0 : nrefs s o = 0) by lia.
+    assert (Hz1 : h_remaining h1 = 0) by (rewrite Er1; exact Erem).
+    destruct (store_host_unshare_ok None s o h h1 I Hs Hz0 Ecb1 Hz1) as [I1 [Hc1 [O1 [Hnh _]]]]. fold s1 in I1, Hc1, O1.
+    assert (T1 : TokInv s1 (ctoks (h_cb h) ++ RC) RF) by (apply (tokinv_host_unshare None s o h h1); auto).
+    assert (HO1 : HOwn s1 o h1) by (split; [exact Hc1|split; [exact Hz1|split; [rewrite Ecb1; exact Hnh|rewrite Ecb1; exact O1]]]).
+    assert (I2 : Inv s2) by (apply (ce_inv _ _ _ E2); auto).
+    assert (T2 : TokInv s2 (ctoks (h_cb h) ++ RC) RF) by (apply tokinv_set_tape; exact T1).
+    pose proof (hown_core _ _ _ _ E2 HO1) as HO2. pose proof HO2 as [Hc2 _].
+    apply safe_bind. eapply safe_get_host; [exact (inv_heap _ _ I2)|exact Hc2|].
+    apply safe_bind. eapply safe_store; [exact (inv_heap _ _ I2)|exact Hc2|].
+    destruct (hown_store s2 o h1 (h_set_ai nodes v4 h1) I2 HO2 eq_refl Hz1) as [I3 [F3 HO3]].
+    assert (T3 : TokInv (store_st o (CHost (h_set_ai nodes v4 h1)) s2) (ctoks (h_cb h) ++ RC) RF).
+    { apply (tokinv_host_excl None s2 o h1); auto. }
+    set (h3 := h_set_ai nodes v4 h1) in *. set (s3 := store_st o (CHost h3) s2) in *.
+    simpl negb. rewrite andb_false_r. apply safe_bind. apply safe_ret.
+    assert (FinE : forall stx, safe (end_hquery cf f o stx) s3 (tpost RC RF)).
+    { intros stx. apply (tp_end_hquery _ IH o stx s3 h3 RC RF I3 HO3). exact T3. }
+    pose proof HO3 as [Hc3 [Hz3 _]].
+    destruct (zeqb (r_status r) ARES_EDESTRUCTION || zeqb (r_status r) ARES_ECANCELLED); [apply FinE|].
+    destruct (negb (zeqb ais ARES_SUCCESS) && negb (zeqb ais ARES_ENODATA)).
+    { destruct (zeqb ais ARES_EBADRESP && nodes); apply FinE. }
+    destruct nodes; [apply FinE|].
+    destruct (zeqb (r_status r) ARES_ENOTFOUND || zeqb (r_status r) ARES_ENODATA || zeqb ais ARES_ENODATA).
+    { apply safe_bind. eapply safe_get_host; [exact (inv_heap _ _ I3)|exact Hc3|].
+      apply safe_bind. eapply safe_store; [exact (inv_heap _ _ I3)|exact Hc3|].
+      match goal with |- context [store_st o (CHost ?hx) s3] =>
+        destruct (hown_store s3 o h3 hx I3 HO3 eq_refl Hz3) as [I4 [F4 HO4]];
+        assert (T4 : TokInv (store_st o (CHost hx) s3) (ctoks (h_cb h) ++ RC) RF) by (apply (tokinv_host_excl None s3 o h3); auto)
+      end.
+      eapply (tp_host_next_lookup _ IH); eauto. }
+    match goal with |- safe (if ?b then _ else _) _ _ => destruct b end.
+    { apply safe_bind. eapply safe_get_host; [exact (inv_heap _ _ I3)|exact Hc3|].
+      eapply (tp_host_next_lookup _ IH); eauto. }
+    apply FinE.
+  - apply Nat.eqb_neq in Erem.
+    assert (Hp1 : 0 < h_remaining h1) by (rewrite Er1; lia).
+    destruct (store_host_shared_ok None s o h h1 (dg (Some o)) I Hs Ecb1 Hp1) as [I1 [F1 [Hs1 _]]].
+    { rewrite Er1. simpl. rewrite Nat.eqb_refl. lia. }
+    { intros o' Hne. simpl. apply Nat.eqb_neq in Hne. rewrite Hne. reflexivity. }
+    { simpl. rewrite Nat.eqb_refl. lia. }
+    fold s1 in I1, F1, Hs1.
+    assert (T1 : TokInv s1 RC RF) by (apply (tokinv_host_shared None s o h h1); auto).
+    assert (I2 : Inv s2) by (apply (ce_inv _ _ _ E2); auto).
+    assert (T2 : TokInv s2 RC RF) by (apply tokinv_set_tape; exact T1).
+    assert (Hs2 : shared_at s2 o = Some h1) by (rewrite (ce_shared _ _ _ E2); exact Hs1).
+    destruct (shared_host _ _ _ Hs2) as [Hc2 _].
+    apply safe_bind. eapply safe_get_host; [exact (inv_heap _ _ I2)|exact Hc2|].
+    apply safe_bind. eapply safe_store; [exact (inv_heap _ _ I2)|exact Hc2|].
+    destruct (store_host_shared_ok None s2 o h1 (h_set_ai nodes v4 h1) (dg None) I2 Hs2 eq_refl Hp1) as [I3 [F3 _]].
+    { simpl. lia. } { intros; reflexivity. }
+    { simpl. pose proof (hi_cnt _ (inv_hosts _ _ I2) _ _ Hs2). lia. }
+    assert (T3 : TokInv (store_st o (CHost (h_set_ai nodes v4 h1)) s2) RC RF).
+    { apply (tokinv_host_shared None s2 o h1); auto. }
+    set (s3 := store_st o (CHost (h_set_ai nodes v4 h1)) s2) in *.
+    simpl negb.
+    apply safe_bind.
+    + match goal with |- context [if ?b then _ else ret tt] => destruct b end.
+      * apply safe_bind. apply safe_get.
+        match goal with |- context [lookup ?t (st_byqid s3)] => destruct (lookup t (st_byqid s3)) as [qo|] eqn:Lk end.
+        -- destruct (inv_byqid _ _ I3 _ _ Lk) as [Hl _]. destruct (inv_query _ _ I3 _ Hl) as [q Hq].
+           apply safe_bind. eapply safe_get_query; [exact (inv_heap _ _ I3)|exact Hq|].
+           eapply safe_store; [exact (inv_heap _ _ I3)|exact Hq|].
+           apply safe_ret. apply (tok_store_query None s3 qo q); auto.
+        -- apply safe_ret. apply safe_ret. exact T3.
+      * apply safe_ret. apply safe_ret. exact T3.
+Qed.
+
 (* ---- entry points ---- *)
-Lemma api_tstep f : Specs2 f -> forall c s RC RF, Inv s -> nohost_call c -> TokInv s RC (call_toks c ++ RF) ->
+Lemma api_tstep f : Specs2 f -> forall c s RC RF, Inv s -> TokInv s RC (call_toks c ++ RF) ->
   safe (api cf (S f) c) s (tpost RC RF).
 Proof.
-  intros IH c s RC RF I Hc T.
+  intros IH c s RC RF I T.
   assert (Em : forall t (m : M unit), call_toks c = [t] ->
             (forall s1, core_eq s s1 -> st_scripts s1 = st_scripts s -> TokInv s1 (t :: RC) RF -> safe m s1 (tpost RC RF)) ->
             safe (emit (EvReq t) ;; m) s (tpost RC RF)).
   { intros t m Ect Hm. apply safe_bind. apply safe_emit. rewrite Ect in T. simpl in T.
     apply Hm; [apply core_eq_set_trace|reflexivity|apply tokinv_emit_req; exact T]. }
-  destruct c; simpl; try (destruct Hc; fail).
+  destruct c; simpl.
   - (* ASync *)
     apply (Em t); [reflexivity|]. intros s1 E1 Es1 T1.
     apply (tp_invoke _ IH (KUser t) (res st) s1 RC RF); [apply (inv_core _ _ _ E1); auto|apply own_nil|exact Logic.I|exact T1].
   - (* ASend *)
     apply (Em t); [reflexivity|]. intros s1 E1 Es1 T1. apply safe_bind.
-    eapply safe_mono; [apply (tp_send_nolock _ IH (KUser t) false s1 RC RF); [apply (inv_core _ _ _ E1); auto|apply own_nil|exact Logic.I|exact T1]|].
+    eapply safe_mono; [apply (tp_send_nolock _ IH (KUser t) false None s1 RC RF); [apply (inv_core _ _ _ E1); auto|apply own_nil|exact Logic.I|exact Logic.I|exact T1]|].
     intros z s2 T2. apply safe_ret. exact T2.
   - (* ASendRaw *)
     apply (Em t); [reflexivity|]. intros s1 E1 Es1 T1.
@@ -760,12 +996,12 @@ Proof.
     apply safe_bind. apply safe_alloc.
     destruct (alloc_opaque_ok None s1 I1) as [I2 _].
     apply safe_bind.
-    eapply safe_mono; [apply (tp_send_nolock _ IH (KWrap WConv (st_next s1) (KUser t)) false _ RC RF I2 (own_alloc s1 [] I1 (own_nil _)) Logic.I)|].
-    + simpl. apply (tok_alloc None); auto.
+    eapply safe_mono; [apply (tp_send_nolock _ IH (KWrap WConv (st_next s1) (KUser t)) false None _ RC RF I2 (own_alloc s1 [] I1 (own_nil _)) Logic.I Logic.I)|].
+    + simpl. apply (tok_alloc None); auto. exact Logic.I.
     + intros z s3 T3. apply safe_ret. exact T3.
   - (* AQuery *)
     apply (Em t); [reflexivity|]. intros s1 E1 Es1 T1. apply safe_bind.
-    eapply safe_mono; [apply (tp_query_nolock _ IH (KUser t) s1 RC RF); [apply (inv_core _ _ _ E1); auto|apply own_nil|exact Logic.I|exact T1]|].
+    eapply safe_mono; [apply (tp_query_nolock _ IH (KUser t) None s1 RC RF); [apply (inv_core _ _ _ E1); auto|apply own_nil|exact Logic.I|exact Logic.I|exact T1]|].
     intros z s2 T2. apply safe_ret. exact T2.
   - (* AOQuery *)
     apply (Em t); [reflexivity|]. intros s1 E1 Es1 T1.
@@ -774,10 +1010,10 @@ Proof.
     destruct (alloc_opaque_ok None s1 I1) as [I2 _].
     pose proof (own_alloc s1 [] I1 (own_nil _)) as O2.
     assert (T2 : TokInv (alloc_st COpaque s1) (ctoks (KWrap WConv (st_next s1) (KUser t)) ++ RC) RF).
-    { simpl. apply (tok_alloc None); auto. }
+    { simpl. apply (tok_alloc None); auto. exact Logic.I. }
     destruct (zeqb create_rc ARES_SUCCESS).
     + apply safe_bind.
-      eapply safe_mono; [apply (tp_query_nolock _ IH (KWrap WConv (st_next s1) (KUser t)) _ RC RF I2 O2 Logic.I T2)|].
+      eapply safe_mono; [apply (tp_query_nolock _ IH (KWrap WConv (st_next s1) (KUser t)) None _ RC RF I2 O2 Logic.I Logic.I T2)|].
       intros z s3 T3. apply safe_ret. exact T3.
     + apply (tp_invoke _ IH (KWrap WConv (st_next s1) (KUser t)) (res create_rc) _ RC RF I2 O2 Logic.I T2).
   - (* ASearch *)
@@ -791,7 +1027,7 @@ Proof.
     destruct (alloc_opaque_ok None s1 I1) as [I2 _].
     apply safe_bind.
     eapply safe_mono; [apply (tp_search_int _ IH (KWrap WConv (st_next s1) (KUser t)) names _ RC RF I2 (own_alloc s1 [] I1 (own_nil _)) Logic.I)|].
-    + simpl. apply (tok_alloc None); auto.
+    + simpl. apply (tok_alloc None); auto. exact Logic.I.
     + intros z s3 T3. apply safe_ret. exact T3.
   - (* AGhba *)
     apply (Em t); [reflexivity|]. intros s1 E1 Es1 T1.
@@ -799,7 +1035,7 @@ Proof.
     apply safe_bind. apply safe_alloc.
     destruct (alloc_opaque_ok None s1 I1) as [I2 _].
     apply (tp_addr_next_lookup _ IH (st_next s1) (KUser t) lookups _ RC RF I2 (own_alloc s1 [] I1 (own_nil _)) Logic.I).
-    simpl. apply (tok_alloc None); auto.
+    simpl. apply (tok_alloc None); auto. exact Logic.I.
   - (* AGni *)
     apply (Em t); [reflexivity|]. intros s1 E1 Es1 T1.
     assert (I1 : Inv s1) by (apply (inv_core _ _ _ E1); auto).
@@ -811,7 +1047,33 @@ Proof.
     destruct (alloc_opaque_ok None s2 I2) as [I3 _].
     pose proof (own_alloc s2 [w] I2 O2) as O3.
     apply (tp_addr_next_lookup _ IH (st_next s2) (KWrap (WNameinfo namereqd) w (KUser t)) lookups _ RC RF I3 O3 Logic.I).
-    simpl. apply (tok_alloc None); auto. apply (tok_alloc None); auto.
+    simpl. apply (tok_alloc None); auto; [exact Logic.I|]. apply (tok_alloc None); auto. exact Logic.I.
+  - (* AGai *)
+    apply (Em t); [reflexivity|]. intros s1 E1 Es1 T1.
+    assert (I1 : Inv s1) by (apply (inv_core _ _ _ E1); auto).
+    apply safe_bind. apply safe_alloc.
+    set (h0 := mk_host (KUser t) names family lookups localhost).
+    destruct (alloc_host_ok None s1 h0 I1 eq_refl) as [I2 [Hc2 _]].
+    assert (HO2 : HOwn (alloc_st (CHost h0) s1) (st_next s1) h0).
+    { split; [exact Hc2|]. split; [reflexivity|]. split; [exact Logic.I|apply own_nil]. }
+    apply (tp_host_next_lookup _ IH (st_next s1) ARES_ECONNREFUSED _ h0 RC RF I2 HO2).
+    simpl. apply (tok_alloc None); auto. reflexivity.
+  - (* AGhbn *)
+    apply (Em t); [reflexivity|]. intros s1 E1 Es1 T1.
+    assert (I1 : Inv s1) by (apply (inv_core _ _ _ E1); auto).
+    apply safe_bind. apply safe_alloc.
+    destruct (alloc_opaque_ok None s1 I1) as [I2 _].
+    pose proof (own_alloc s1 [] I1 (own_nil _)) as O2.
+    set (w := st_next s1) in *. set (s2 := alloc_st COpaque s1) in *.
+    apply safe_bind. apply safe_alloc.
+    set (h0 := mk_host (KWrap WGhbn w (KUser t)) names family lookups localhost).
+    destruct (alloc_host_ok None s2 h0 I2 eq_refl) as [I3 [Hc3 [Hsame3 [_ [Hrt3 _]]]]].
+    assert (HO3 : HOwn (alloc_st (CHost h0) s2) (st_next s2) h0).
+    { split; [exact Hc3|]. split; [reflexivity|]. split; [exact Logic.I|].
+      apply (own_same s2); auto. intros y [<-|[]]. apply Hsame3.
+      destruct (own_cons _ _ _ O2) as [Hcw _]. pose proof (live_lt _ _ _ (inv_heap _ _ I2) Hcw). lia. }
+    apply (tp_host_next_lookup _ IH (st_next s2) ARES_ECONNREFUSED _ h0 RC RF I3 HO3).
+    simpl. apply (tok_alloc None); auto; [reflexivity|]. apply (tok_alloc None); auto. exact Logic.I.
   - (* ACancel *)
     apply (tp_cancel _ IH); auto.
   - (* ANop *)
@@ -845,6 +1107,10 @@ Proof.
   - apply addr_next_lookup_tstep; auto.
   - apply addr_callback_tstep; auto.
   - apply end_aquery_tstep; auto.
+  - apply host_next_lookup_tstep; auto.
+  - apply host_next_dns_lookup_tstep; auto.
+  - apply host_callback_tstep; auto.
+  - apply end_hquery_tstep; auto.
 Qed.
 
 Theorem all_specs2 : forall f, Specs2 f.
@@ -870,7 +1136,7 @@ Proof.
   apply safe_bind. apply safe_get.
   destruct (lookup qid (st_byqid s)) as [qo|] eqn:Lk; [|apply safe_fail].
   destruct (inv_byqid _ _ I _ _ Lk) as [Hl _].
-  destruct (inv_query _ _ I _ Hl) as [q [Hq _]].
+  destruct (inv_query _ _ I _ Hl) as [q Hq].
   apply safe_bind. eapply safe_get_query; [exact (inv_heap _ _ I)|exact Hq|].
   destruct R as [c [Hc Hrd]].
   apply safe_bind. eapply safe_get_conn; [exact (inv_heap _ _ I)|exact Hc|].
@@ -919,10 +1185,10 @@ Proof.
       destruct (conn_drop_query_ok s2 co c2 qo I2 Hc2) as [I3 [Ell3 [Hc3 Hsame3]]].
       set (c3 := set_c_queries (remove_nat qo (c_queries c2)) c2) in *.
       assert (T3 : TokInv (store_st co (CConn c3) s2) RC RF).
-      { apply tok_store_unlinked; auto. eapply conn_not_linked; eauto. }
+      { eapply (tok_store_unlinked None); eauto; try exact Logic.I. eapply conn_not_linked; eauto. }
       set (s3 := store_st co (CConn c3) s2) in *.
       assert (Hl3 : In qo (linked s3)) by (rewrite Ell3; exact Hl2).
-      destruct (inv_query _ _ I3 _ Hl3) as [q3 [Hq3 _]].
+      destruct (inv_query _ _ I3 _ Hl3) as [q3 Hq3].
       destruct (classify cf a (c_tcp c2)).
       + destruct (remove_from_conn_ok _ _ _ _ I3 (or_intror eq_refl) Hl3 Hq3) as [s4 [E4 _]].
         pose proof (tokinv_remove_from_conn _ _ _ _ RC RF I3 (or_intror eq_refl) Hl3 Hq3 s4 E4 T3) as T4.
@@ -959,18 +1225,18 @@ Proof.
   - apply safe_bind. apply safe_ret. apply (G rq); auto. exists c; auto.
 Qed.
 
-Lemma read_loop_tok f n co rq s RC RF : Inv s -> reading s co -> TokInv s RC RF ->
+Lemma read_loop_tok f n co rq s RC RF : Inv2 s -> reading s co -> TokInv s RC RF ->
   safe (read_loop cf f n co rq) s (fun _ s' => TokInv s' RC RF).
 Proof.
   pose proof (S1 f) as IH. pose proof (S2 f) as IH2.
-  revert co rq s. induction n as [|n IHn]; intros co rq s I R T; simpl; [apply safe_fail|].
+  revert co rq s. induction n as [|n IHn]; intros co rq s [I St] R T; simpl; [apply safe_fail|].
   destruct R as [c [Hc Hrd]].
   apply safe_bind. eapply safe_get_conn; [exact (inv_heap _ _ I)|exact Hc|].
   apply safe_bind. apply safe_peek. apply safe_bind. apply safe_peek2.
   rewrite (fx_connread_true cf Hfix).
   assert (Leave : safe (store co (CConn (set_c_reading false c));; ret rq) s (fun _ s' => TokInv s' RC RF)).
   { apply safe_bind. eapply safe_store; [exact (inv_heap _ _ I)|exact Hc|].
-    apply safe_ret. apply tok_store_unlinked; auto. eapply conn_not_linked; eauto. }
+    apply safe_ret. eapply (tok_store_unlinked None); eauto; try exact Logic.I. eapply conn_not_linked; eauto. }
   destruct (hd_error (st_tape s)) as [e|]; [|exact Leave].
   destruct e; try exact Leave.
   - destruct (negb (Nat.eqb sock (c_sock c))); [exact Leave|].
@@ -978,17 +1244,18 @@ Proof.
     set (s1 := set_tape rest s).
     assert (E1 : core_eq s s1) by apply core_eq_set_tape.
     assert (I1 : Inv s1) by (apply (inv_core _ _ _ E1); auto).
+    assert (St1 : Stable s1) by (apply (stable_core _ _ E1); auto).
     assert (R1 : reading s1 co) by (apply (reading_core s s1 co); [exists c; auto|exact E1]).
     assert (T1 : TokInv s1 RC RF) by (apply tokinv_set_tape; exact T).
     apply safe_bind.
-    eapply safe_mono; [apply safe_both; [apply (process_answer_ok cf Hfix f co qid a rq s1 I1 R1)
+    eapply safe_mono; [apply safe_both; [apply (process_answer_ok cf Hfix f co qid a rq s1 (conj I1 St1) R1)
                                         |apply (process_answer_tok f co qid a rq s1 RC RF I1 R1 T1)]|].
-    intros rq' s2 [[I2 [c2 [Hc2 Hrd2]]] T2].
+    intros rq' s2 [[[I2 St2] [c2 [Hc2 Hrd2]]] T2].
     apply safe_bind. eapply safe_get_conn; [exact (inv_heap _ _ I2)|exact Hc2|].
     destruct (c_closed c2) eqn:Ecl.
     + apply safe_bind. eapply safe_free; [exact (inv_heap _ _ I2)|exact Hc2|].
-      apply safe_ret. apply tok_free; auto. eapply conn_not_linked; eauto.
-    + apply IHn; auto. exists c2; auto.
+      apply safe_ret. eapply (tok_free None); eauto; [exact Logic.I|]. eapply conn_not_linked; eauto.
+    + apply IHn; auto. { split; auto. } exists c2; auto.
   - destruct (hd_error (tl (st_tape s))) as [e2|]; [|exact Leave].
     destruct e2; try exact Leave.
     destruct (negb (Nat.eqb sock (c_sock c))); [exact Leave|].
@@ -998,39 +1265,39 @@ Proof.
     { simpl. intros H. destruct (inv_conns _ _ I) as [_ Hcc]. destruct (Hcc _ H) as [c0 [Hc0 Hcl]].
       rewrite Hc in Hc0. inversion Hc0; subst. exact Hcl. }
     assert (T1 : TokInv (store_st co (CConn (set_c_reading false c)) s) RC RF).
-    { apply tok_store_unlinked; auto. eapply conn_not_linked; eauto. }
+    { eapply (tok_store_unlinked None); eauto; try exact Logic.I. eapply conn_not_linked; eauto. }
     apply safe_bind.
     eapply safe_mono; [apply (tp_handle_conn_error _ _ IH2 co true st _ _ RC RF I1 Hc1 T1)|].
     intros [] s2 T2. apply safe_ret. exact T2.
 Qed.
 
-Lemma flush_requeue_tok f rq s RC RF : Inv s -> TokInv s RC RF ->
-  safe (flush_requeue cf f rq) s (fun _ s' => Inv s' /\ TokInv s' RC RF).
+Lemma flush_requeue_tok f rq s RC RF : Inv2 s -> TokInv s RC RF ->
+  safe (flush_requeue cf f rq) s (fun _ s' => Inv2 s' /\ TokInv s' RC RF).
 Proof.
   pose proof (S1 f) as IH. pose proof (S2 f) as IH2.
-  revert s. induction rq as [|qid rest IHr]; intros s I T; simpl; [apply safe_ret; auto|].
+  revert s. induction rq as [|qid rest IHr]; intros s [I St] T; simpl; [apply safe_ret; split; [split|]; auto|].
   apply safe_bind. apply safe_get. apply safe_bind.
   destruct (lookup qid (st_byqid s)) as [qo|] eqn:Lk.
   - destruct (inv_byqid _ _ I _ _ Lk) as [Hl _].
     apply safe_bind.
     eapply safe_mono; [apply safe_both; [apply (sp_send_query _ _ IH qo s I Hl)|apply (tp_send_query _ _ IH2 qo s RC RF I Hl T)]|].
-    intros z s1 [[I1 _] T1]. apply safe_ret. apply IHr; auto.
-  - apply safe_ret. apply IHr; auto.
+    intros z s1 [[I1 F1] T1]. apply safe_ret. apply IHr; auto. split; [exact I1|exact (stable_frame _ _ _ St F1)].
+  - apply safe_ret. apply IHr; auto. split; auto.
 Qed.
 
-Lemma read_answers_tok f co s c RC RF : Inv s -> cell_of s co = Some (CConn c) -> In co (st_conns s) -> TokInv s RC RF ->
-  safe (read_answers cf f co) s (fun _ s' => Inv s' /\ TokInv s' RC RF).
+Lemma read_answers_tok f co s c RC RF : Inv2 s -> cell_of s co = Some (CConn c) -> In co (st_conns s) -> TokInv s RC RF ->
+  safe (read_answers cf f co) s (fun _ s' => Inv2 s' /\ TokInv s' RC RF).
 Proof.
-  intros I Hc Hin T. unfold read_answers.
+  intros [I St] Hc Hin T. unfold read_answers.
   apply safe_bind. eapply safe_get_conn; [exact (inv_heap _ _ I)|exact Hc|].
   rewrite (fx_connread_true cf Hfix).
   apply safe_bind. eapply safe_store; [exact (inv_heap _ _ I)|exact Hc|].
-  destruct (store_conn_flags_ok None s co c (set_c_reading true c) I Hc eq_refl eq_refl) as [I1 [_ [_ [_ Hc1]]]].
+  destruct (store_conn_flags_ok2 s co c (set_c_reading true c) (conj I St) Hc eq_refl eq_refl) as [I1 Hc1].
   { simpl. intros H. exact (inv_closed _ _ I _ _ Hc H). }
   { simpl. intros H. destruct (inv_conns _ _ I) as [_ Hcc]. destruct (Hcc _ H) as [c0 [Hc0 Hcl]].
     rewrite Hc in Hc0. inversion Hc0; subst. exact Hcl. }
   assert (T1 : TokInv (store_st co (CConn (set_c_reading true c)) s) RC RF).
-  { apply tok_store_unlinked; auto. eapply conn_not_linked; eauto. }
+  { eapply (tok_store_unlinked None); eauto; try exact Logic.I. eapply conn_not_linked; eauto. }
   assert (R1 : reading (store_st co (CConn (set_c_reading true c)) s) co).
   { exists (set_c_reading true c). split; auto. }
   apply safe_bind.
@@ -1046,28 +1313,28 @@ Hypothesis Hfix : cf_fix cf = all_fixed.
 Let S1 := all_specs cf Hfix.
 Let S2 := all_specs2 cf Hfix.
 
-Definition ITpost (RC RF : list tok) : unit -> state -> Prop := fun _ s' => Inv s' /\ TokInv s' RC RF.
+Definition ITpost (RC RF : list tok) : unit -> state -> Prop := fun _ s' => Inv2 s' /\ TokInv s' RC RF.
 
-Lemma destroy_loop_tok f n s RC RF : Inv s -> TokInv s RC RF ->
+Lemma destroy_loop_tok f n s RC RF : Inv2 s -> TokInv s RC RF ->
   safe (destroy_loop_fixed cf f n) s (ITpost RC RF).
 Proof.
   pose proof (S1 f) as IH. pose proof (S2 f) as IH2.
-  revert s. induction n as [|n IHn]; intros s I T; simpl; [apply safe_fail|].
+  revert s. induction n as [|n IHn]; intros s [I St] T; simpl; [apply safe_fail|].
   apply safe_bind. apply safe_get.
-  destruct (st_lists s) as [|[|qo l] r] eqn:El; try (apply safe_ret; split; auto).
+  destruct (st_lists s) as [|[|qo l] r] eqn:El; try (apply safe_ret; split; [split|]; auto).
   assert (Hl : In qo (linked s)) by (unfold linked; rewrite El; simpl; left; reflexivity).
   apply safe_bind.
   eapply safe_mono; [apply safe_both; [apply (sp_complete_query _ _ IH qo _ s (inv_weaken _ _ I) Hl)
                                       |apply (tp_complete_query _ _ IH2 qo _ s RC RF (inv_weaken _ _ I) Hl T)]|].
-  intros [] s1 [[I1 _] T1]. apply IHn; auto.
+  intros [] s1 [[I1 F1] T1]. apply IHn; auto. split; [exact I1|exact (stable_frame _ _ _ St F1)].
 Qed.
 
-Lemma destroy_conns_tok f n s RC RF : Inv s -> TokInv s RC RF -> safe (destroy_conns cf f n) s (ITpost RC RF).
+Lemma destroy_conns_tok f n s RC RF : Inv2 s -> TokInv s RC RF -> safe (destroy_conns cf f n) s (ITpost RC RF).
 Proof.
   pose proof (S1 f) as IH. pose proof (S2 f) as IH2.
-  revert s. induction n as [|n IHn]; intros s I T; simpl; [apply safe_fail|].
+  revert s. induction n as [|n IHn]; intros s [I St] T; simpl; [apply safe_fail|].
   apply safe_bind. apply safe_get.
-  destruct (st_conns s) as [|co0 r] eqn:Ec; [apply safe_ret; split; auto|].
+  destruct (st_conns s) as [|co0 r] eqn:Ec; [apply safe_ret; split; [split|]; auto|].
   apply safe_bind. apply safe_peek.
   destruct (hd_error (st_tape s)) as [e|]; [|apply safe_fail].
   destruct e; try apply safe_fail.
@@ -1078,12 +1345,17 @@ Proof.
   apply safe_bind.
   eapply safe_mono; [apply safe_both; [apply (sp_close_connection _ _ IH co ARES_SUCCESS s c I Hc)
                                       |apply (tp_close_connection _ _ IH2 co ARES_SUCCESS s c RC RF I Hc T)]|].
-  intros [] s1 [[I1 _] T1]. apply IHn; auto.
+  intros [] s1 [[I1 F1] T1]. apply IHn; auto. split; [exact I1|exact (stable_frame _ _ _ St F1)].
 Qed.
 
 (* ares_destroy: afterwards no query is linked (the assert) *)
-Lemma held_nil s : linked s = [] -> held s = [].
-Proof. intros E. unfold held. rewrite E. reflexivity. Qed.
+Lemma held_nil s : Inv2 s -> linked s = [] -> held s = [].
+Proof.
+  intros [I St] E. unfold held, qheld. rewrite E. simpl. unfold hheld. apply flat_map_nil. intros o _.
+  unfold htoks. destruct (shared_at s o) as [h|] eqn:Hs; auto. exfalso.
+  destruct (shared_host _ _ _ Hs) as [Hc Hp]. destruct (St _ _ Hc) as [_ Hr].
+  unfold nrefs, refs_to in Hr. rewrite E in Hr. simpl in Hr. lia.
+Qed.
 
 (* closing a connection that has no queries runs no callback: the lists are untouched *)
 Lemma close_idle_linked f co st s c : heap_ok s -> cell_of s co = Some (CConn c) -> c_queries c = [] ->
@@ -1107,13 +1379,13 @@ Proof.
   - eapply safe_free; [exact Hh1|exact Hc1|]. reflexivity.
 Qed.
 
-Lemma destroy_conns_full f n s RC RF : linked s = [] -> Inv s -> TokInv s RC RF ->
-  safe (destroy_conns cf f n) s (fun _ s' => linked s' = [] /\ Inv s' /\ TokInv s' RC RF).
+Lemma destroy_conns_full f n s RC RF : linked s = [] -> Inv2 s -> TokInv s RC RF ->
+  safe (destroy_conns cf f n) s (fun _ s' => linked s' = [] /\ Inv2 s' /\ TokInv s' RC RF).
 Proof.
   pose proof (S1 f) as IH. pose proof (S2 f) as IH2.
-  revert s. induction n as [|n IHn]; intros s El I T; simpl; [apply safe_fail|].
+  revert s. induction n as [|n IHn]; intros s El [I St] T; simpl; [apply safe_fail|].
   apply safe_bind. apply safe_get.
-  destruct (st_conns s) as [|co0 r] eqn:Ec; [apply safe_ret; auto|].
+  destruct (st_conns s) as [|co0 r] eqn:Ec; [apply safe_ret; split; [|split; [split|]]; auto|].
   apply safe_bind. apply safe_peek.
   destruct (hd_error (st_tape s)) as [e|]; [|apply safe_fail].
   destruct e; try apply safe_fail.
@@ -1130,17 +1402,17 @@ Proof.
        [apply (sp_close_connection _ _ IH co ARES_SUCCESS s c I Hc)
        |apply (tp_close_connection _ _ IH2 co ARES_SUCCESS s c RC RF I Hc T)]
        |apply (close_idle_linked f co ARES_SUCCESS s c (inv_heap _ _ I) Hc Hq)]|].
-  intros [] s1 [[[I1 _] T1] El1]. apply IHn; auto. rewrite El1. exact El.
+  intros [] s1 [[[I1 F1] T1] El1]. apply IHn; auto. { rewrite El1. exact El. } split; [exact I1|exact (stable_frame _ _ _ St F1)].
 Qed.
 
-Lemma destroy_tok f s RC RF : Inv s -> TokInv s RC RF ->
-  safe (destroy cf f) s (fun _ s' => linked s' = [] /\ Inv s' /\ TokInv s' RC RF).
+Lemma destroy_tok f s RC RF : Inv2 s -> TokInv s RC RF ->
+  safe (destroy cf f) s (fun _ s' => linked s' = [] /\ Inv2 s' /\ TokInv s' RC RF).
 Proof.
-  intros I T. unfold destroy.
+  intros [I St] T. unfold destroy.
   apply safe_bind. apply safe_modify.
   set (s1 := set_destroying true s).
   assert (E1 : core_eq s s1) by apply core_eq_set_destroying.
-  assert (I1 : Inv s1) by (apply (inv_core _ _ _ E1); auto).
+  assert (I1 : Inv2 s1) by (split; [apply (inv_core _ _ _ E1); auto|apply (stable_core _ _ E1); auto]).
   assert (T1 : TokInv s1 RC RF) by (apply (tokinv_same s); [reflexivity|reflexivity|reflexivity|exact T]).
   apply safe_bind. apply safe_get. rewrite (fx_unlink_true cf Hfix).
   apply safe_bind. eapply safe_mono; [apply (destroy_loop_tok f f s1 RC RF I1 T1)|].
@@ -1150,13 +1422,13 @@ Proof.
   apply destroy_conns_full; auto.
 Qed.
 
-Lemma process_writes_tok f socks s RC RF : Inv s -> TokInv s RC RF -> safe (process_writes cf f socks) s (ITpost RC RF).
+Lemma process_writes_tok f socks s RC RF : Inv2 s -> TokInv s RC RF -> safe (process_writes cf f socks) s (ITpost RC RF).
 Proof.
   pose proof (S1 f) as IH. pose proof (S2 f) as IH2.
-  revert s. induction socks as [|sock rest IHr]; intros s I T; simpl; [apply safe_ret; split; auto|].
+  revert s. induction socks as [|sock rest IHr]; intros s [I St] T; simpl; [apply safe_ret; split; [split|]; auto|].
   destruct (find_conn_by_sock_ok _ s sock I) as [r0 [E1 Hr]].
   apply safe_bind. eapply safe_of_run; [exact E1|]. apply safe_bind.
-  destruct r0 as [co|]; [|apply safe_ret; apply IHr; auto].
+  destruct r0 as [co|]; [|apply safe_ret; apply IHr; auto; split; auto].
   destruct (Hr _ eq_refl) as [Hin [c [Hc Hncl]]].
   apply safe_bind. eapply safe_get_conn; [exact (inv_heap _ _ I)|exact Hc|].
   apply safe_bind. apply safe_pop. intros e rest0 Et. destruct e; try apply safe_fail.
@@ -1164,32 +1436,33 @@ Proof.
   assert (E2 : core_eq s s1) by apply core_eq_set_tape.
   assert (I1 : Inv s1) by (apply (inv_core _ _ _ E2); auto).
   assert (T1 : TokInv s1 RC RF) by (apply tokinv_set_tape; exact T).
+  assert (St1 : Stable s1) by (apply (stable_core _ _ E2); auto).
   destruct (negb (Nat.eqb sock0 sock)); [apply safe_fail|].
   destruct (zeqb rc ARES_SUCCESS).
-  - apply safe_ret. apply IHr; auto.
+  - apply safe_ret. apply IHr; auto. split; auto.
   - eapply safe_mono; [apply safe_both; [apply (sp_handle_conn_error _ _ IH co true rc s1 c I1 Hc)
                                         |apply (tp_handle_conn_error _ _ IH2 co true rc s1 c RC RF I1 Hc T1)]|].
-    intros [] s2 [[I2 _] T2]. apply IHr; auto.
+    intros [] s2 [[I2 F2] T2]. apply IHr; auto. split; [exact I2|exact (stable_frame _ _ _ St1 F2)].
 Qed.
 
-Lemma process_reads_tok f socks s RC RF : Inv s -> TokInv s RC RF -> safe (process_reads cf f socks) s (ITpost RC RF).
+Lemma process_reads_tok f socks s RC RF : Inv2 s -> TokInv s RC RF -> safe (process_reads cf f socks) s (ITpost RC RF).
 Proof.
-  revert s. induction socks as [|sock rest IHr]; intros s I T; simpl; [apply safe_ret; split; auto|].
+  revert s. induction socks as [|sock rest IHr]; intros s [I St] T; simpl; [apply safe_ret; split; [split|]; auto|].
   destruct (find_conn_by_sock_ok _ s sock I) as [r0 [E1 Hr]].
   apply safe_bind. eapply safe_of_run; [exact E1|]. apply safe_bind.
-  destruct r0 as [co|]; [|apply safe_ret; apply IHr; auto].
+  destruct r0 as [co|]; [|apply safe_ret; apply IHr; auto; split; auto].
   destruct (Hr _ eq_refl) as [Hin [c [Hc Hncl]]].
-  eapply safe_mono; [apply (read_answers_tok cf Hfix f co s c RC RF I Hc Hin T)|].
+  eapply safe_mono; [apply (read_answers_tok cf Hfix f co s c RC RF (conj I St) Hc Hin T)|].
   intros [] s1 [I1 T1]. apply IHr; auto.
 Qed.
 
-Lemma process_timeouts_tok f n s RC RF : Inv s -> TokInv s RC RF -> safe (process_timeouts cf f n) s (ITpost RC RF).
+Lemma process_timeouts_tok f n s RC RF : Inv2 s -> TokInv s RC RF -> safe (process_timeouts cf f n) s (ITpost RC RF).
 Proof.
   pose proof (S1 f) as IH. pose proof (S2 f) as IH2.
-  revert s. induction n as [|n IHn]; intros s I T; simpl; [apply safe_fail|].
+  revert s. induction n as [|n IHn]; intros s [I St] T; simpl; [apply safe_fail|].
   apply safe_bind. apply safe_peek. apply safe_bind. apply safe_peek2.
-  destruct (hd_error (st_tape s)) as [e|]; [|apply safe_ret; split; auto].
-  destruct e; try (apply safe_ret; split; auto).
+  destruct (hd_error (st_tape s)) as [e|]; [|apply safe_ret; split; [split|]; auto].
+  destruct e; try (apply safe_ret; split; [split|]; auto).
   assert (G : safe (let! s0 := get in
                     match timeout_victim (st_tape s0) with
                     | Some qid =>
@@ -1221,19 +1494,19 @@ Proof.
           [apply inv_weaken; apply (inv_core _ _ _ E1); auto|exact Hl]
        |apply (tp_requeue_query _ _ IH2 qo ARES_ETIMEOUT true false _ (set_tape l1 s) RC RF);
           [apply inv_weaken; apply (inv_core _ _ _ E1); auto|exact Hl|apply tokinv_set_tape; exact T]]|].
-    intros z s2 [[I2 _] T2]. apply IHn; auto. }
+    intros z s2 [[I2 F2] T2]. apply IHn; auto. split; [exact I2|exact (stable_frame _ _ _ (stable_core _ _ E1 St) F2)]. }
   destruct (hd_error (tl (st_tape s))) as [e2|]; [|exact G].
-  destruct e2; try exact G. apply safe_ret. split; auto.
+  destruct e2; try exact G. apply safe_ret. split; [split|]; auto.
 Qed.
 
-Lemma process_fds_tok f w r s RC RF : Inv s -> TokInv s RC RF -> safe (process_fds cf f w r) s (ITpost RC RF).
+Lemma process_fds_tok f w r s RC RF : Inv2 s -> TokInv s RC RF -> safe (process_fds cf f w r) s (ITpost RC RF).
 Proof.
   intros I T. pose proof (S1 f) as IH. pose proof (S2 f) as IH2. unfold process_fds.
   apply safe_bind. eapply safe_mono; [apply (process_writes_tok f w s RC RF I T)|]. intros [] s1 [I1 T1].
-  apply safe_bind. eapply safe_mono; [apply (process_reads_tok f r s1 RC RF I1 T1)|]. intros [] s2 [I2 T2].
+  apply safe_bind. eapply safe_mono; [apply (process_reads_tok f r s1 RC RF I1 T1)|]. intros [] s2 [[I2 St2] T2].
   apply safe_bind.
   eapply safe_mono; [apply safe_both; [apply (sp_check_cleanup _ _ IH s2 I2)|apply (tp_check_cleanup _ _ IH2 s2 RC RF I2 T2)]|].
-  intros [] s3 [[I3 _] T3]. apply process_timeouts_tok; auto.
+  intros [] s3 [[I3 F3] T3]. apply process_timeouts_tok; auto. split; [exact I3|exact (stable_frame _ _ _ St2 F3)].
 Qed.
 
 End FixedT3.
@@ -1283,26 +1556,27 @@ Section Top.
 Variable cf : config.
 Hypothesis Hfix : cf_fix cf = all_fixed.
 
-Lemma step_tok fuel i tape s RF : Inv s -> nohost_input i -> i <> IDestroy -> TokInv s [] (input_toks i ++ RF) ->
-  safe (step cf fuel i tape) s (fun _ s' => Inv s' /\ TokInv s' [] RF).
+Lemma step_tok fuel i tape s RF : Inv2 s -> i <> IDestroy -> TokInv s [] (input_toks i ++ RF) ->
+  safe (step cf fuel i tape) s (fun _ s' => Inv2 s' /\ TokInv s' [] RF).
 Proof.
-  intros I Hi Hnd T. pose proof (all_specs cf Hfix fuel) as IH. pose proof (all_specs2 cf Hfix fuel) as IH2.
+  intros [I St] Hnd T. pose proof (all_specs cf Hfix fuel) as IH. pose proof (all_specs2 cf Hfix fuel) as IH2.
   unfold step.
   apply safe_bind. apply safe_modify.
   set (s1 := set_tape tape s).
   assert (E1 : core_eq s s1) by apply core_eq_set_tape.
   assert (I1 : Inv s1) by (apply (inv_core _ _ _ E1); auto).
+  assert (St1 : Stable s1) by (apply (stable_core _ _ E1); auto).
   assert (T1 : TokInv s1 [] (input_toks i ++ RF)) by (apply tokinv_set_tape; exact T).
-  assert (Fin : forall s2, Inv s2 -> TokInv s2 [] RF ->
+  assert (Fin : forall s2, Inv2 s2 -> TokInv s2 [] RF ->
             safe (let! s0 := get in match st_tape s0 with [] => ret tt | _ :: _ => fail EDESYNC end) s2
-                 (fun _ s' => Inv s' /\ TokInv s' [] RF)).
+                 (fun _ s' => Inv2 s' /\ TokInv s' [] RF)).
   { intros s2 I2 T2. apply safe_bind. apply safe_get. destruct (st_tape s2); [apply safe_ret; auto|apply safe_fail]. }
   apply safe_bind.
   destruct i as [c|t c|w r|]; [| | |contradiction].
   - assert (Dflt : safe (api cf fuel c) s1 (fun _ s0 => safe (let! s3 := get in match st_tape s3 with [] => ret tt | _ :: _ => fail EDESYNC end) s0
-                         (fun _ s' => Inv s' /\ TokInv s' [] RF))).
-    { eapply safe_mono; [apply safe_both; [apply (sp_api _ _ IH c s1 I1 Hi)|apply (tp_api _ _ IH2 c s1 [] RF I1 Hi T1)]|].
-      intros [] s2 [[I2 _] T2]. apply Fin; auto. }
+                         (fun _ s' => Inv2 s' /\ TokInv s' [] RF))).
+    { eapply safe_mono; [apply safe_both; [apply (sp_api _ _ IH c s1 I1)|apply (tp_api _ _ IH2 c s1 [] RF I1 T1)]|].
+      intros [] s2 [[I2 F2] T2]. apply Fin; auto. split; [exact I2|exact (stable_frame _ _ _ St1 F2)]. }
     destruct c; try exact Dflt.
     apply safe_bind. apply safe_emit.
     set (s2 := set_trace (EvCancelBegin :: st_trace s1) s1).
@@ -1312,12 +1586,13 @@ Proof.
     { apply tokinv_emit_other; try (intros; discriminate); try discriminate. exact T1. }
     apply safe_bind.
     eapply safe_mono; [apply safe_both; [apply (sp_cancel _ _ IH s2 I2)|apply (tp_cancel _ _ IH2 s2 [] RF I2 T2)]|].
-    intros [] s3 [[I3 _] T3]. apply safe_emit.
+    intros [] s3 [[I3 F3] T3]. apply safe_emit.
     apply Fin.
-    + apply (inv_core _ _ _ (core_eq_set_trace _ s3)); auto.
+    + split; [apply (inv_core _ _ _ (core_eq_set_trace _ s3)); auto|].
+      apply (stable_core _ _ (core_eq_set_trace _ s3)). exact (stable_frame _ _ _ (stable_core _ _ E2 St1) F3).
     + apply tokinv_emit_other; try (intros; discriminate); try discriminate. exact T3.
-  - apply safe_modify. apply Fin; [apply add_script_inv; auto|apply tokinv_add_script; exact T1].
-  - eapply safe_mono; [apply (process_fds_tok cf Hfix fuel w r s1 [] RF I1 T1)|].
+  - apply safe_modify. apply Fin; [apply add_script_inv; split; auto|apply tokinv_add_script; exact T1].
+  - eapply safe_mono; [apply (process_fds_tok cf Hfix fuel w r s1 [] RF (conj I1 St1) T1)|].
     intros [] s2 [I2 T2]. apply Fin; auto.
 Qed.
 
@@ -1345,10 +1620,10 @@ Proof.
   - assert (E : Nat.eqb t t0 = false) by (apply Nat.eqb_neq; auto). rewrite E. exact IH.
 Qed.
 
-Lemma destroy_step_tok fuel tape s RF : Inv s -> TokInv s [] RF ->
+Lemma destroy_step_tok fuel tape s RF : Inv2 s -> TokInv s [] RF ->
   safe (step cf fuel IDestroy tape) s (fun _ s' => Done s').
 Proof.
-  intros I T. unfold step.
+  intros [I St] T. unfold step.
   apply safe_bind. apply safe_modify.
   set (s1 := set_tape tape s).
   assert (E1 : core_eq s s1) by apply core_eq_set_tape.
@@ -1360,27 +1635,28 @@ Proof.
   assert (I2 : Inv s2) by (apply (inv_core _ _ _ E2); auto).
   assert (T2 : TokInv s2 [] RF).
   { apply tokinv_emit_other; try (intros; discriminate); try discriminate. exact T1. }
-  apply safe_bind. eapply safe_mono; [apply (destroy_tok cf Hfix fuel s2 [] RF I2 T2)|].
+  assert (St2 : Stable s2) by (apply (stable_core _ _ E2); apply (stable_core _ _ E1); exact St).
+  apply safe_bind. eapply safe_mono; [apply (destroy_tok cf Hfix fuel s2 [] RF (conj I2 St2) T2)|].
   intros [] s3 [El3 [I3 T3]]. apply safe_emit.
   apply safe_bind. apply safe_get. simpl.
   destruct (st_tape s3); [|apply safe_fail]. apply safe_ret.
   constructor. exists (st_trace s3). split; [reflexivity|].
   destruct T3 as [H1 H2 H3 H4 H5]. split; [exact H5|]. split; [exact H3|].
   intros t. rewrite count_perm_cb, count_perm_req.
-  rewrite (held_nil s3 El3) in H2. simpl in H2. rewrite app_nil_r in H2.
+  rewrite (held_nil s3 I3 El3) in H2. simpl in H2. rewrite app_nil_r in H2.
   symmetry. apply Permutation_count_occ. exact H2.
 Qed.
 
-Lemma run_from_tok fuel h s RF : Inv s -> Forall (fun it => nohost_input (fst it)) h ->
+Lemma run_from_tok fuel h s RF : Inv2 s ->
   TokInv s [] (hist_toks h ++ RF) ->
-  safe (run_from cf fuel h) s (fun d s' => if d then Done s' else Inv s' /\ TokInv s' [] RF).
+  safe (run_from cf fuel h) s (fun d s' => if d then Done s' else Inv2 s' /\ TokInv s' [] RF).
 Proof.
-  revert s. induction h as [|[i tape] rest IHh]; intros s I Hh T; simpl.
+  revert s. induction h as [|[i tape] rest IHh]; intros s I T; simpl.
   - apply safe_ret. simpl in T. auto.
-  - inversion Hh; subst. simpl in T. unfold hist_toks in T. simpl in T. rewrite <- app_assoc in T.
+  - simpl in T. unfold hist_toks in T. simpl in T. rewrite <- app_assoc in T.
     fold (hist_toks rest) in T.
     assert (G : i <> IDestroy -> safe (step cf fuel i tape;; run_from cf fuel rest) s
-                 (fun d s' => if d then Done s' else Inv s' /\ TokInv s' [] RF)).
+                 (fun d s' => if d then Done s' else Inv2 s' /\ TokInv s' [] RF)).
     { intros Hnd. apply safe_bind.
       eapply safe_mono; [apply (step_tok fuel i tape s (hist_toks rest ++ RF) I); auto|].
       intros [] s1 [I1 T1]. apply IHh; auto. }
@@ -1445,17 +1721,17 @@ Proof.
 Qed.
 
 Theorem run_trace_ok cf fuel h final tr :
-  cf_fix cf = all_fixed -> Forall (fun it => nohost_input (fst it)) h -> NoDup (hist_toks h) ->
+  cf_fix cf = all_fixed -> NoDup (hist_toks h) ->
   run cf fuel h final = Ok tr ->
   at_most_once tr /\ none_after_destroy tr /\ complete_at_destroy tr.
 Proof.
-  intros Hfix Hh Hn Hrun. unfold run in Hrun.
+  intros Hfix Hn Hrun. unfold run in Hrun.
   assert (S : safe (let! destroyed := run_from cf fuel h in
                     (if destroyed then ret tt else step cf fuel IDestroy final);; emit EvEnd)
                    init_state (fun _ s => let tr := rev (st_trace s) in
                                           at_most_once tr /\ none_after_destroy tr /\ complete_at_destroy tr)).
   { apply safe_bind.
-    eapply safe_mono; [apply (run_from_tok cf Hfix fuel h init_state [] init_inv Hh)|].
+    eapply safe_mono; [apply (run_from_tok cf Hfix fuel h init_state [] init_inv)|].
     - rewrite app_nil_r. apply init_tokinv. exact Hn.
     - intros d s1 H1. apply safe_bind. destruct d.
       + apply safe_ret. apply safe_emit. apply (done_final s1 H1).
@@ -1472,16 +1748,29 @@ Qed.
 (* exactly once at any quiescent point of a history (no query is linked): every token
    requested so far has had exactly as many callbacks as requests, and never more on the way *)
 Theorem run_from_quiescent cf fuel h s :
-  cf_fix cf = all_fixed -> Forall (fun it => nohost_input (fst it)) h -> NoDup (hist_toks h) ->
+  cf_fix cf = all_fixed -> NoDup (hist_toks h) ->
   run_from cf fuel h init_state = Ok (false, s) -> linked s = [] ->
   (forall t, count_cb (st_trace s) t = count_req (st_trace s) t) /\ at_most_once (rev (st_trace s)).
 Proof.
-  intros Hfix Hh Hn Hrun El.
-  pose proof (run_from_tok cf Hfix fuel h init_state [] init_inv Hh) as S.
+  intros Hfix Hn Hrun El.
+  pose proof (run_from_tok cf Hfix fuel h init_state [] init_inv) as S.
   rewrite app_nil_r in S. specialize (S (init_tokinv _ Hn)).
   unfold safe in S. rewrite Hrun in S. simpl in S. destruct S as [I [H1 H2 H3 H4 H5]].
   split; [|exact H3].
   intros t. rewrite count_perm_cb, count_perm_req.
-  rewrite (held_nil s El) in H2. simpl in H2. rewrite app_nil_r in H2.
+  rewrite (held_nil s I El) in H2. simpl in H2. rewrite app_nil_r in H2.
   symmetry. apply Permutation_count_occ. exact H2.
 Qed.
+
+(* the three parts of run_trace_ok by name (for Properties_C01.v) *)
+Theorem run_at_most_once cf fuel h final tr :
+  cf_fix cf = all_fixed -> NoDup (hist_toks h) -> run cf fuel h final = Ok tr -> at_most_once tr.
+Proof. intros H1 H2 H3. exact (proj1 (run_trace_ok cf fuel h final tr H1 H2 H3)). Qed.
+
+Theorem run_none_after_destroy cf fuel h final tr :
+  cf_fix cf = all_fixed -> NoDup (hist_toks h) -> run cf fuel h final = Ok tr -> none_after_destroy tr.
+Proof. intros H1 H2 H3. exact (proj1 (proj2 (run_trace_ok cf fuel h final tr H1 H2 H3))). Qed.
+
+Theorem run_complete_at_destroy cf fuel h final tr :
+  cf_fix cf = all_fixed -> NoDup (hist_toks h) -> run cf fuel h final = Ok tr -> complete_at_destroy tr.
+Proof. intros H1 H2 H3. exact (proj2 (proj2 (run_trace_ok cf fuel h final tr H1 H2 H3))). Qed.
